@@ -14,12 +14,14 @@
 //! history on the whole stack; opaque codecs enter as the table of (input, output) pairs seen between two
 //! layers).  Everything else is S-only (oracle).
 use crate::util::*;
+#[path = "c03_b.rs"]
+mod b;
 use serde_json::{json, Value};
 use std::collections::{HashMap, HashSet};
 use zipora::blob_store::cached_store::CacheWriteStrategy;
 use zipora::blob_store::{
-    BatchBlobStore, BatchZipOffsetBlobStoreBuilder, BlobStore, BlobStoreStats, CachedBlobStore, DictionaryBlobStore,
-    HuffmanBlobStore, MemoryBlobStore, MixedLenBlobStore, NestLoudsTrieBlobStore, NestLoudsTrieBlobStoreBuilder,
+    BatchBlobStore, BatchZipOffsetBlobStoreBuilder, BlobStore, BlobStoreStats, CachedBlobStore, CompressedBlobStore, DictionaryBlobStore,
+    HuffmanBlobStore, IterableBlobStore, MemoryBlobStore, MixedLenBlobStore, NestLoudsTrieBlobStore, NestLoudsTrieBlobStoreBuilder,
     PlainBlobStore, RansBlobStore, SimpleZipBlobStore, SimpleZipConfig, SortedUintVecConfig, TrieBlobStoreConfig,
     ZeroLengthBlobStore, ZipOffsetBlobStore, ZipOffsetBlobStoreBuilder, ZipOffsetBlobStoreConfig, ZstdBlobStore,
 };
@@ -51,6 +53,26 @@ trait DynStore {
     /// save -> load (or close -> reopen); None = the store type has no such operation
     fn reopen(self: Box<Self>) -> Result<Box<dyn DynStore>, String>;
     fn can_reopen(&self) -> bool { false }
+    // ---- secondary entry points (oracle breadth) ----
+    /// the ids the store's own iteration yields (`IterableBlobStore::iter_ids`, `iter_ids_vec`); None = the type has no iteration
+    fn iter_ids_dyn(&self) -> Option<Vec<RecordId>> { None }
+    /// the (id, record) pairs of `iter_blobs` / `iter_blobs_vec`
+    fn iter_blobs_dyn(&self) -> Option<Result<Vec<(RecordId, Vec<u8>)>, String>> { None }
+    /// Housekeeping / accessor / statistics calls that must leave the logical content alone; `k` selects the call.
+    /// Returns its name and whether the model of the stack is unaffected (false: a configuration switch the model has as a parameter).
+    fn housekeeping(&mut self, _k: u64, _dir: &str) -> (&'static str, bool) { ("none", true) }
+    /// `Clone`: an independent copy that answers identically
+    fn clone_dyn(&self) -> Option<Box<dyn DynStore>> { None }
+    /// an operation documented to drop every record (`clear`, `load_dictionary`); None = the type has none
+    fn clear_dyn(&mut self, _k: u64, _dir: &str) -> Option<Result<&'static str, String>> { None }
+    /// (re)train the codec in the middle of a history (`add_training_data` + `build_tree`, `train`)
+    fn retrain_dyn(&mut self, _k: u64) -> Option<Result<&'static str, String>> { None }
+    /// take the wrapper off its inner store and put a new wrapper on (`into_inner` + `new`); stores without it return themselves
+    fn rewrap(self: Box<Self>, _k: u64) -> Result<(Box<dyn DynStore>, &'static str), String>;
+    /// `finalize`: afterwards writes may be refused; None = the type has no such call
+    fn finalize_dyn(&mut self) -> Option<Result<(), String>> { None }
+    /// after `finalize`: the records of the bulk store that was built, in id order
+    fn finalized_records(&self) -> Option<Result<Vec<Vec<u8>>, String>> { None }
 }
 
 /// What reached one layer of a stack (recorded by the `B` adapter that sits between two layers): the records handed
@@ -115,6 +137,26 @@ impl BatchBlobStore for B {
     }
 }
 
+/// Secondary entry points of one store type (everything the BlobStore / BatchBlobStore traits do not name); the defaults say
+/// "this type has no such call".
+trait Extra {
+    fn x_iter_ids(&self) -> Option<Vec<RecordId>> { None }
+    fn x_iter_blobs(&self) -> Option<Result<Vec<(RecordId, Vec<u8>)>, String>> { None }
+    fn x_housekeeping(&mut self, _k: u64, _dir: &str) -> (&'static str, bool) { ("none", true) }
+    fn x_clear(&mut self, _k: u64, _dir: &str) -> Option<Result<&'static str, String>> { None }
+    fn x_retrain(&mut self, _k: u64) -> Option<Result<&'static str, String>> { None }
+    fn x_finalize(&mut self) -> Option<Result<(), String>> { None }
+    fn x_finalized_records(&self) -> Option<Result<Vec<Vec<u8>>, String>> { None }
+}
+macro_rules! extra_fwd { () => {
+        fn iter_ids_dyn(&self) -> Option<Vec<RecordId>> { Extra::x_iter_ids(self) }
+        fn iter_blobs_dyn(&self) -> Option<Result<Vec<(RecordId, Vec<u8>)>, String>> { Extra::x_iter_blobs(self) }
+        fn housekeeping(&mut self, k: u64, dir: &str) -> (&'static str, bool) { Extra::x_housekeeping(self, k, dir) }
+        fn clear_dyn(&mut self, k: u64, dir: &str) -> Option<Result<&'static str, String>> { Extra::x_clear(self, k, dir) }
+        fn retrain_dyn(&mut self, k: u64) -> Option<Result<&'static str, String>> { Extra::x_retrain(self, k) }
+        fn finalize_dyn(&mut self) -> Option<Result<(), String>> { Extra::x_finalize(self) }
+        fn finalized_records(&self) -> Option<Result<Vec<Vec<u8>>, String>> { Extra::x_finalized_records(self) }
+} }
 macro_rules! dyn_store {
     ($t:ty, batch) => {
         impl DynStore for $t {
@@ -125,6 +167,8 @@ macro_rules! dyn_store {
             fn remove_batch_dyn(&mut self, ids: Vec<RecordId>) -> ZResult<usize> { self.remove_batch(ids) }
             fn get_batch_dyn(&self, ids: Vec<RecordId>) -> ZResult<Vec<Option<Vec<u8>>>> { self.get_batch(ids) }
             fn reopen(self: Box<Self>) -> Result<Box<dyn DynStore>, String> { Err("no reopen".into()) }
+            fn rewrap(self: Box<Self>, _k: u64) -> Result<(Box<dyn DynStore>, &'static str), String> { Ok((self, "none")) }
+            extra_fwd!();
         }
     };
     ($t:ty, nobatch) => {
@@ -132,18 +176,41 @@ macro_rules! dyn_store {
             fn bs(&mut self) -> &mut dyn BlobStore { self }
             fn bs_ref(&self) -> &dyn BlobStore { self }
             fn reopen(self: Box<Self>) -> Result<Box<dyn DynStore>, String> { Err("no reopen".into()) }
+            fn rewrap(self: Box<Self>, _k: u64) -> Result<(Box<dyn DynStore>, &'static str), String> { Ok((self, "none")) }
+            extra_fwd!();
         }
     };
 }
-dyn_store!(ZstdBlobStore<B>, batch);
 dyn_store!(HuffmanBlobStore<B>, nobatch);
 dyn_store!(RansBlobStore<B>, nobatch);
 dyn_store!(DictionaryBlobStore<B>, nobatch);
 dyn_store!(CachedBlobStore<B>, nobatch);
-dyn_store!(ZeroLengthBlobStore, batch);
 dyn_store!(Nt, batch);
 dyn_store!(DictZipBlobStore, batch);
 
+fn ids_of<S: IterableBlobStore>(s: &S) -> Vec<RecordId> { s.iter_ids().collect() }
+fn blobs_of<S: IterableBlobStore>(s: &S) -> Result<Vec<(RecordId, Vec<u8>)>, String> {
+    let mut v = vec![];
+    for x in s.iter_blobs() { v.push(x.map_err(|e| format!("iter_blobs yielded an error: {}", e))?); }
+    Ok(v)
+}
+const EXTRA_TRAIN: &[u8] = b"zzzz yyyy xxxx {\"k\": 12345, \"v\": [1,2,3]} aaaaaaaaaaaaaaaaaaaaaaaa bbbbbbbb QQQQQQQQ ~~~~ \x00\x01\x02\xff\xfe";
+
+impl Extra for MemoryBlobStore {
+    fn x_iter_ids(&self) -> Option<Vec<RecordId>> { Some(ids_of(self)) }
+    fn x_iter_blobs(&self) -> Option<Result<Vec<(RecordId, Vec<u8>)>, String>> { Some(blobs_of(self)) }
+    fn x_housekeeping(&mut self, k: u64, _dir: &str) -> (&'static str, bool) {
+        match k % 6 {
+            0 => { self.reserve((k / 6 % 3000) as usize); ("memory.reserve", true) }
+            1 => { self.shrink_to_fit(); ("memory.shrink_to_fit", true) }
+            2 => { let _ = self.capacity(); ("memory.capacity", true) }
+            3 => { let _ = self.stats(); ("memory.stats", true) }
+            4 => { let _ = self.flush(); ("memory.flush", true) }
+            _ => { self.reserve(0); self.shrink_to_fit(); self.reserve(1); ("memory.reserve+shrink", true) }
+        }
+    }
+    fn x_clear(&mut self, _k: u64, _dir: &str) -> Option<Result<&'static str, String>> { self.clear(); Some(Ok("memory.clear")) }
+}
 impl DynStore for MemoryBlobStore {
     fn bs(&mut self) -> &mut dyn BlobStore { self }
     fn bs_ref(&self) -> &dyn BlobStore { self }
@@ -157,6 +224,20 @@ impl DynStore for MemoryBlobStore {
         let bytes = serde_json::to_vec(&*self).map_err(|e| format!("serialize: {}", e))?;
         let s: MemoryBlobStore = serde_json::from_slice(&bytes).map_err(|e| format!("deserialize: {}", e))?;
         Ok(Box::new(s))
+    }
+    fn rewrap(self: Box<Self>, _k: u64) -> Result<(Box<dyn DynStore>, &'static str), String> { Ok((self, "none")) }
+    fn clone_dyn(&self) -> Option<Box<dyn DynStore>> { Some(Box::new(self.clone())) }
+    extra_fwd!();
+}
+impl Extra for PlainBlobStore {
+    fn x_iter_ids(&self) -> Option<Vec<RecordId>> { Some(ids_of(self)) }
+    fn x_iter_blobs(&self) -> Option<Result<Vec<(RecordId, Vec<u8>)>, String>> { Some(blobs_of(self)) }
+    fn x_housekeeping(&mut self, k: u64, _dir: &str) -> (&'static str, bool) {
+        match k % 3 {
+            0 => { let _ = self.flush(); ("plain.flush", true) }
+            1 => { let _ = self.stats(); ("plain.stats", true) }
+            _ => { let _ = self.base_dir().to_path_buf(); ("plain.base_dir", true) }
+        }
     }
 }
 impl DynStore for PlainBlobStore {
@@ -172,30 +253,323 @@ impl DynStore for PlainBlobStore {
         drop(self);
         PlainBlobStore::new(&dir).map(|s| Box::new(s) as Box<dyn DynStore>).map_err(|e| format!("reopen: {}", e))
     }
+    /// the serde image of the handle (directory + id counter): a second handle that must answer identically
+    fn rewrap(self: Box<Self>, _k: u64) -> Result<(Box<dyn DynStore>, &'static str), String> {
+        let bytes = serde_json::to_vec(&*self).map_err(|e| format!("serialize: {}", e))?;
+        let s: PlainBlobStore = serde_json::from_slice(&bytes).map_err(|e| format!("deserialize: {}", e))?;
+        drop(self);
+        Ok((Box::new(s), "plain.serde"))
+    }
+    extra_fwd!();
+}
+
+impl Extra for ZeroLengthBlobStore {
+    fn x_iter_ids(&self) -> Option<Vec<RecordId>> { Some(ids_of(self)) }
+    fn x_iter_blobs(&self) -> Option<Result<Vec<(RecordId, Vec<u8>)>, String>> { Some(blobs_of(self)) }
+    fn x_housekeeping(&mut self, k: u64, _dir: &str) -> (&'static str, bool) {
+        match k % 3 {
+            0 => { let _ = self.mem_size(); ("zero.mem_size", true) }
+            1 => { let _ = self.flush(); ("zero.flush", true) }
+            _ => { let _ = self.stats(); ("zero.stats", true) }
+        }
+    }
+}
+impl DynStore for ZeroLengthBlobStore {
+    fn bs(&mut self) -> &mut dyn BlobStore { self }
+    fn bs_ref(&self) -> &dyn BlobStore { self }
+    fn has_batch(&self) -> bool { true }
+    fn put_batch_dyn(&mut self, recs: Vec<Vec<u8>>) -> ZResult<Vec<RecordId>> { self.put_batch(recs) }
+    fn remove_batch_dyn(&mut self, ids: Vec<RecordId>) -> ZResult<usize> { self.remove_batch(ids) }
+    fn get_batch_dyn(&self, ids: Vec<RecordId>) -> ZResult<Vec<Option<Vec<u8>>>> { self.get_batch(ids) }
+    fn can_reopen(&self) -> bool { true }
+    fn reopen(self: Box<Self>) -> Result<Box<dyn DynStore>, String> {
+        let bytes = serde_json::to_vec(&*self).map_err(|e| format!("serialize: {}", e))?;
+        let s: ZeroLengthBlobStore = serde_json::from_slice(&bytes).map_err(|e| format!("deserialize: {}", e))?;
+        Ok(Box::new(s))
+    }
+    fn rewrap(self: Box<Self>, _k: u64) -> Result<(Box<dyn DynStore>, &'static str), String> { Ok((self, "none")) }
+    fn clone_dyn(&self) -> Option<Box<dyn DynStore>> { Some(Box::new(self.clone())) }
+    extra_fwd!();
+}
+
+// the id iteration of a stack exists when every layer down to the base has one
+impl IterableBlobStore for B {
+    type IdIter = std::vec::IntoIter<RecordId>;
+    fn iter_ids(&self) -> Self::IdIter { self.0.iter_ids_dyn().unwrap_or_default().into_iter() }
+}
+fn zstd_housekeeping<S: BlobStore>(z: &mut ZstdBlobStore<S>, k: u64) -> &'static str {
+    match k % 8 {
+        0 => { let _ = z.compression_level(); "zstd.compression_level" }
+        1 => { let _ = z.inner().len(); "zstd.inner" }
+        2 => { let _ = z.compressed_size((k / 8 % 12) as RecordId); "zstd.compressed_size" }
+        3 => { let _ = z.compression_ratio((k / 8 % 12) as RecordId); "zstd.compression_ratio" }
+        4 => { let _ = z.compression_stats(); "zstd.compression_stats" }
+        5 => { let _ = z.flush(); "zstd.flush" }
+        6 => { let _ = z.stats(); "zstd.stats" }
+        _ => { let _ = z.inner_mut().flush(); "zstd.inner_mut" }
+    }
+}
+impl Extra for ZstdBlobStore<B> {
+    fn x_iter_ids(&self) -> Option<Vec<RecordId>> { self.inner().0.iter_ids_dyn()?; Some(ids_of(self)) }
+    fn x_iter_blobs(&self) -> Option<Result<Vec<(RecordId, Vec<u8>)>, String>> { self.inner().0.iter_ids_dyn()?; Some(blobs_of(self)) }
+    fn x_housekeeping(&mut self, k: u64, dir: &str) -> (&'static str, bool) {
+        if k % 3 == 0 { return self.inner_mut().0.housekeeping(k / 3, dir); }   // reach the layer below through inner_mut()
+        (zstd_housekeeping(self, k / 3), true)
+    }
+}
+impl DynStore for ZstdBlobStore<B> {
+    fn bs(&mut self) -> &mut dyn BlobStore { self }
+    fn bs_ref(&self) -> &dyn BlobStore { self }
+    fn has_batch(&self) -> bool { true }
+    fn put_batch_dyn(&mut self, recs: Vec<Vec<u8>>) -> ZResult<Vec<RecordId>> { self.put_batch(recs) }
+    fn remove_batch_dyn(&mut self, ids: Vec<RecordId>) -> ZResult<usize> { self.remove_batch(ids) }
+    fn get_batch_dyn(&self, ids: Vec<RecordId>) -> ZResult<Vec<Option<Vec<u8>>>> { self.get_batch(ids) }
+    fn reopen(self: Box<Self>) -> Result<Box<dyn DynStore>, String> { Err("no reopen".into()) }
+    /// into_inner, then a new wrapper (possibly with another level) on the same inner store: zstd frames describe themselves
+    fn rewrap(self: Box<Self>, k: u64) -> Result<(Box<dyn DynStore>, &'static str), String> {
+        let inner = (*self).into_inner();
+        Ok(match k % 3 {
+            0 => (Box::new(ZstdBlobStore::with_default_compression(inner)), "zstd.into_inner+with_default_compression"),
+            1 => (Box::new(ZstdBlobStore::new(inner, 1)), "zstd.into_inner+new(1)"),
+            _ => (Box::new(ZstdBlobStore::new(inner, 12)), "zstd.into_inner+new(12)"),
+        })
+    }
+    extra_fwd!();
+}
+/// ZstdBlobStore directly over MemoryBlobStore (no adapter in between): the serde image of the whole stack
+type ZMem = ZstdBlobStore<MemoryBlobStore>;
+impl Extra for ZMem {
+    fn x_iter_ids(&self) -> Option<Vec<RecordId>> { Some(ids_of(self)) }
+    fn x_iter_blobs(&self) -> Option<Result<Vec<(RecordId, Vec<u8>)>, String>> { Some(blobs_of(self)) }
+    fn x_housekeeping(&mut self, k: u64, dir: &str) -> (&'static str, bool) {
+        if k % 3 == 0 { return Extra::x_housekeeping(self.inner_mut(), k / 3, dir); }
+        (zstd_housekeeping(self, k / 3), true)
+    }
+}
+impl DynStore for ZMem {
+    fn bs(&mut self) -> &mut dyn BlobStore { self }
+    fn bs_ref(&self) -> &dyn BlobStore { self }
+    fn has_batch(&self) -> bool { true }
+    fn put_batch_dyn(&mut self, recs: Vec<Vec<u8>>) -> ZResult<Vec<RecordId>> { self.put_batch(recs) }
+    fn remove_batch_dyn(&mut self, ids: Vec<RecordId>) -> ZResult<usize> { self.remove_batch(ids) }
+    fn get_batch_dyn(&self, ids: Vec<RecordId>) -> ZResult<Vec<Option<Vec<u8>>>> { self.get_batch(ids) }
+    fn can_reopen(&self) -> bool { true }
+    fn reopen(self: Box<Self>) -> Result<Box<dyn DynStore>, String> {
+        let bytes = serde_json::to_vec(&*self).map_err(|e| format!("serialize: {}", e))?;
+        let s: ZMem = serde_json::from_slice(&bytes).map_err(|e| format!("deserialize: {}", e))?;
+        Ok(Box::new(s))
+    }
+    fn rewrap(self: Box<Self>, k: u64) -> Result<(Box<dyn DynStore>, &'static str), String> {
+        let inner = (*self).into_inner();
+        Ok((Box::new(ZstdBlobStore::new(inner, [1, 3, 9][(k % 3) as usize])), "zstd.into_inner+new"))
+    }
+    extra_fwd!();
+}
+
+impl Extra for HuffmanBlobStore<B> {
+    fn x_housekeeping(&mut self, k: u64, _dir: &str) -> (&'static str, bool) {
+        match k % 4 {
+            0 => { let _ = self.compression_stats().compressions; ("huffman.compression_stats", true) }
+            1 => { let _ = self.flush(); ("huffman.flush", true) }
+            2 => { let _ = self.stats(); ("huffman.stats", true) }
+            // more training data without a rebuild: the tree in use must not change
+            _ => { self.add_training_data(EXTRA_TRAIN); ("huffman.add_training_data", true) }
+        }
+    }
+    fn x_retrain(&mut self, k: u64) -> Option<Result<&'static str, String>> {
+        if k % 2 == 0 { self.add_training_data(EXTRA_TRAIN); } else { self.add_training_data(TRAIN_TEXT); }
+        Some(self.build_tree().map(|_| "huffman.add_training_data+build_tree").map_err(|e| e.to_string()))
+    }
+}
+impl Extra for RansBlobStore<B> {
+    fn x_housekeeping(&mut self, k: u64, _dir: &str) -> (&'static str, bool) {
+        match k % 3 { 0 => { let _ = self.compression_stats().compressions; ("rans.compression_stats", true) } 1 => { let _ = self.flush(); ("rans.flush", true) } _ => { let _ = self.stats(); ("rans.stats", true) } }
+    }
+    fn x_retrain(&mut self, k: u64) -> Option<Result<&'static str, String>> {
+        Some(self.train(if k % 2 == 0 { EXTRA_TRAIN } else { TRAIN_TEXT }).map(|_| "rans.train").map_err(|e| e.to_string()))
+    }
+}
+impl Extra for DictionaryBlobStore<B> {
+    fn x_housekeeping(&mut self, k: u64, _dir: &str) -> (&'static str, bool) {
+        match k % 3 { 0 => { let _ = self.compression_stats().compressions; ("dict.compression_stats", true) } 1 => { let _ = self.flush(); ("dict.flush", true) } _ => { let _ = self.stats(); ("dict.stats", true) } }
+    }
+    fn x_retrain(&mut self, k: u64) -> Option<Result<&'static str, String>> {
+        Some(self.train(if k % 2 == 0 { EXTRA_TRAIN } else { TRAIN_TEXT }).map(|_| "dict.train").map_err(|e| e.to_string()))
+    }
+}
+impl Extra for CachedBlobStore<B> {
+    fn x_housekeeping(&mut self, k: u64, dir: &str) -> (&'static str, bool) {
+        let a = k / 13;
+        match k % 13 {
+            0 => { let _ = CachedBlobStore::flush(self); ("cached.flush", true) }
+            1 => { let _ = BlobStore::flush(self); ("cached.BlobStore::flush", true) }
+            2 => { let _ = self.cache_stats(); ("cached.cache_stats", true) }
+            3 => { let _ = self.prefetch_range((a % 5) * 1000, (a % 7 * 900) as usize + 1); ("cached.prefetch_range", true) }
+            4 => { let _ = self.invalidation_stats(); ("cached.invalidation_stats", true) }
+            5 => { let _ = self.write_strategy(); ("cached.write_strategy", true) }
+            6 => { let _ = self.inner().len(); ("cached.inner", true) }
+            7 => self.inner_mut().0.housekeeping(a, dir),
+            8 => { self.set_write_strategy([CacheWriteStrategy::WriteThrough, CacheWriteStrategy::WriteBack, CacheWriteStrategy::WriteAround][(a % 3) as usize]); ("cached.set_write_strategy", false) }
+            9 => { self.disable_cache(); ("cached.disable_cache", false) }
+            10 => { self.enable_cache(); ("cached.enable_cache", false) }
+            11 => { let _ = self.prefetch_range(0, 1 << 16); let _ = CachedBlobStore::flush(self); ("cached.prefetch_range+flush", true) }
+            _ => { let _ = self.stats(); ("cached.stats", true) }
+        }
+    }
+}
+impl Extra for Nt {
+    fn x_iter_ids(&self) -> Option<Vec<RecordId>> { Some(ids_of(self)) }
+    fn x_iter_blobs(&self) -> Option<Result<Vec<(RecordId, Vec<u8>)>, String>> { Some(blobs_of(self)) }
+    fn x_housekeeping(&mut self, k: u64, _dir: &str) -> (&'static str, bool) {
+        let id = (k / 12 % 12) as RecordId;
+        match k % 12 {
+            0 => { let _ = self.flush(); ("nlt.flush", true) }
+            1 => { let _ = self.stats(); ("nlt.stats", true) }
+            2 => { let _ = self.trie_stats().key_count; ("nlt.trie_stats", true) }
+            3 => { let _ = self.config().key_cache_size; ("nlt.config", true) }
+            4 => { let _ = self.keys(); ("nlt.keys", true) }
+            5 => { let _ = self.key_count(); ("nlt.key_count", true) }
+            6 => { let _ = self.compressed_size(id); ("nlt.compressed_size", true) }
+            7 => { let _ = self.compression_ratio(id); ("nlt.compression_ratio", true) }
+            8 => { let _ = self.compression_stats(); ("nlt.compression_stats", true) }
+            9 => { let _ = self.contains_key(b"__blob_1"); ("nlt.contains_key", true) }
+            10 => { let _ = self.is_finalized(); let _ = self.blob_store().map(|s| s.len()); ("nlt.is_finalized+blob_store", true) }
+            _ => { let _ = self.keys_with_prefix(b"__blob_"); let _ = self.trie(); ("nlt.keys_with_prefix", true) }
+        }
+    }
+    fn x_finalize(&mut self) -> Option<Result<(), String>> { Some(self.finalize().map_err(|e| e.to_string())) }
+    fn x_finalized_records(&self) -> Option<Result<Vec<Vec<u8>>, String>> {
+        let s = self.blob_store()?;
+        Some((0..s.len()).map(|i| s.get(i as RecordId).map_err(|e| format!("blob_store().get({}) failed: {}", i, e))).collect())
+    }
+}
+impl Extra for DictZipBlobStore {
+    fn x_iter_ids(&self) -> Option<Vec<RecordId>> { Some(self.iter_ids_vec()) }
+    fn x_iter_blobs(&self) -> Option<Result<Vec<(RecordId, Vec<u8>)>, String>> { Some(self.iter_blobs_vec().map_err(|e| format!("iter_blobs_vec failed: {}", e))) }
+    fn x_housekeeping(&mut self, k: u64, dir: &str) -> (&'static str, bool) {
+        let id = (k / 10 % 12) as RecordId;
+        match k % 10 {
+            0 => { let _ = self.optimize(); ("dictzip.optimize", true) }
+            1 => { let _ = self.validate(); ("dictzip.validate", true) }
+            2 => { let _ = self.detailed_stats().map(|s| (s.cache_hit_ratio(), s.avg_compression_ratio())); ("dictzip.detailed_stats", true) }
+            3 => { let _ = self.dictionary_stats(); ("dictzip.dictionary_stats", true) }
+            4 => { let _ = self.compression_stats(); ("dictzip.compression_stats", true) }
+            5 => { let _ = self.compressed_size(id); ("dictzip.compressed_size", true) }
+            6 => { let _ = self.compression_ratio(id); ("dictzip.compression_ratio", true) }
+            7 => { let _ = self.flush(); ("dictzip.flush", true) }
+            8 => { let _ = self.stats(); ("dictzip.stats", true) }
+            _ => { let p = format!("{}/dz_hk.dict", dir); let _ = self.save_dictionary(&p); let _ = std::fs::remove_file(&p); ("dictzip.save_dictionary", true) }
+        }
+    }
+    /// save_dictionary + load_dictionary: documented to drop every record (they are tied to the old dictionary object)
+    fn x_clear(&mut self, _k: u64, dir: &str) -> Option<Result<&'static str, String>> {
+        let p = format!("{}/dz_reload.dict", dir);
+        let r = self.save_dictionary(&p).and_then(|_| self.load_dictionary(&p)).map(|_| "dictzip.save_dictionary+load_dictionary").map_err(|e| e.to_string());
+        let _ = std::fs::remove_file(&p);
+        Some(r)
+    }
 }
 
 const TRAIN_TEXT: &[u8] = b"the quick brown fox jumps over the lazy dog; pack my box with five dozen liquor jugs. \
 0123456789 abcdefghijklmnopqrstuvwxyz ABCDEFGHIJKLMNOPQRSTUVWXYZ key=value key=value error warn info debug \
 the quick brown fox jumps over the lazy dog again and again and again\n";
 
-fn dictzip_store(preset: &str) -> Result<DictZipBlobStore, String> {
+fn dictzip_store(preset: &str, dir: &str) -> Result<DictZipBlobStore, String> {
     let small = DictionaryBuilderConfig { target_dict_size: 1024, max_dict_size: 8192, validate_result: false, ..Default::default() };
     let mut cfg = match preset {
         "text" => DictZipConfig::text_compression(),
         "binary" => DictZipConfig::binary_compression(),
         "log" => DictZipConfig::log_compression(),
         "realtime" => DictZipConfig::realtime_compression(),
+        // the `with_*` helpers of the configuration
+        "mcs1" => DictZipConfig::default().with_min_compression_size(1).with_cache_size_mb(1),
         _ => DictZipConfig::default(),
     };
     // the presets ask for 8..64 MB dictionaries; keep their other parameters, bound the size
     cfg.dict_builder_config.target_dict_size = small.target_dict_size;
     cfg.dict_builder_config.max_dict_size = small.max_dict_size;
-    cfg.cache_size_bytes = 64 * 1024;
+    if preset != "mcs1" { cfg.cache_size_bytes = 64 * 1024; }
+    let e = |x: zipora::ZiporaError| x.to_string();
     match preset {
         "small10" => { cfg.min_compression_size = 10; }
         "huff1" => { cfg.min_compression_size = 10; cfg.entropy_algorithm = EntropyAlgorithm::HuffmanO1; cfg.entropy_interleaved = 1; cfg.entropy_zip_ratio_require = 1.0; }
         "huff4" => { cfg.min_compression_size = 10; cfg.entropy_algorithm = EntropyAlgorithm::HuffmanO1; cfg.entropy_interleaved = 4; cfg.entropy_zip_ratio_require = 1.0; }
         "fse" => { cfg.min_compression_size = 10; cfg.entropy_algorithm = EntropyAlgorithm::Fse; cfg.entropy_zip_ratio_require = 1.0; }
+        // the remaining interleave factors, the default ratio requirement (0.8: the entropy stage is dropped for most records)
+        "huff0" => { cfg.min_compression_size = 10; cfg.entropy_algorithm = EntropyAlgorithm::HuffmanO1; cfg.entropy_interleaved = 0; cfg.entropy_zip_ratio_require = 1.0; }
+        "huff2" => { cfg.min_compression_size = 10; cfg.entropy_algorithm = EntropyAlgorithm::HuffmanO1; cfg.entropy_interleaved = 2; cfg.entropy_zip_ratio_require = 1.0; }
+        "huff8" => { cfg.min_compression_size = 10; cfg.entropy_algorithm = EntropyAlgorithm::HuffmanO1; cfg.entropy_interleaved = 8; cfg.entropy_zip_ratio_require = 1.0; }
+        "huff_r08" => { cfg.min_compression_size = 10; cfg.entropy_algorithm = EntropyAlgorithm::HuffmanO1; cfg.entropy_interleaved = 1; }
+        "fse4" => { cfg.min_compression_size = 10; cfg.entropy_algorithm = EntropyAlgorithm::Fse; cfg.entropy_interleaved = 4; cfg.entropy_zip_ratio_require = 1.0; }
+        "fse_r08" => { cfg.min_compression_size = 10; cfg.entropy_algorithm = EntropyAlgorithm::Fse; }
+        // a read cache of one / two entries: every other read evicts
+        "cache1" => { cfg.min_compression_size = 10; cfg.cache_size_bytes = 1024; }
+        "cache2" => { cfg.cache_size_bytes = 2048; }
+        "pool" => { cfg.memory_pool_config = Some(zipora::memory::SecurePoolConfig::small_secure()); cfg.track_stats = false; cfg.validate_dictionary = false; }
+        _ => {}
+    }
+    match preset {
+        // DictZipBlobStoreBuilder::new() (default configuration, default dictionary sizes) and the bulk / tuning calls of the builder
+        "new" => {
+            let mut b = DictZipBlobStoreBuilder::new().map_err(e)?;
+            b.add_training_samples(TRAIN_TEXT.chunks(60).map(|c| c.to_vec())).map_err(e)?;
+            let _ = b.training_stats();
+            return b.finish().map_err(e);
+        }
+        "tuned" => {
+            let mut b = DictZipBlobStoreBuilder::with_config(cfg).map_err(e)?;
+            b.set_min_frequency(2).map_err(e)?;
+            b.enable_advanced_caching().map_err(e)?;
+            b.set_progress_callback(|_p| {});
+            b.add_training_samples(TRAIN_TEXT.chunks(40).map(|c| c.to_vec())).map_err(e)?;
+            return b.finish().map_err(e);
+        }
+        "mb1" => {
+            let mut b = DictZipBlobStoreBuilder::with_config(cfg).map_err(e)?;
+            b.set_dict_size_mb(1).map_err(e)?;
+            for chunk in TRAIN_TEXT.chunks(60) { b.add_training_sample(chunk).map_err(e)?; }
+            return b.finish().map_err(e);
+        }
+        "file" => {
+            let p = format!("{}/dz_train_{}.txt", dir, std::process::id());
+            std::fs::write(&p, TRAIN_TEXT).map_err(|x| x.to_string())?;
+            let mut b = DictZipBlobStoreBuilder::with_config(cfg).map_err(e)?;
+            let r = b.add_training_file(&p);
+            let _ = std::fs::remove_file(&p);
+            r.map_err(e)?;
+            return b.finish().map_err(e);
+        }
+        // the dictionary written next to the store (external_dictionary), then a second store from that file
+        "extdict" | "fromdict" => {
+            let p = format!("{}/dz_ext_{}.dict", dir, std::process::id());
+            let cfg2 = cfg.clone();
+            let mut b = DictZipBlobStoreBuilder::with_config(cfg.with_external_dictionary(&p)).map_err(e)?;
+            for chunk in TRAIN_TEXT.chunks(60) { b.add_training_sample(chunk).map_err(e)?; }
+            let first = b.finish().map_err(e);
+            let r = if preset == "extdict" { first } else { first.and_then(|_| DictZipBlobStore::from_dictionary_file(&p, cfg2).map_err(e)) };
+            let _ = std::fs::remove_file(&p);
+            return r;
+        }
+        "bfss" | "bfzo" | "bffl" => {
+            use zipora::config::nest_louds_trie::NestLoudsTrieConfig;
+            use zipora::containers::specialized::{FixedLenStrVec, SortableStrVec, ZoSortedStrVec};
+            let nc = NestLoudsTrieConfig::default();
+            let words: Vec<String> = TRAIN_TEXT.chunks(8).map(|c| String::from_utf8_lossy(c).to_string()).collect();
+            return match preset {
+                "bfss" => { let mut v = SortableStrVec::new(); for w in &words { v.push_str(w).map_err(e)?; } DictZipBlobStore::build_from_sortable_str_vec(&v, &nc) }
+                "bfzo" => DictZipBlobStore::build_from_zo_sorted_str_vec(&ZoSortedStrVec::from_strings(words).map_err(e)?, &nc),
+                _ => { let mut v = FixedLenStrVec::<8>::new(); for w in words.iter().filter(|w| w.len() == 8) { v.push(w).map_err(e)?; } DictZipBlobStore::build_from_fixed_len_str_vec(&v, &nc) }
+            }.map_err(e);
+        }
+        // the constructors that take the trie configuration of the C++ API
+        "bfts" | "bfts_fast" | "bfts_q" | "bfv8" => {
+            use zipora::config::nest_louds_trie::{NestLoudsTrieConfig, OptimizationFlags};
+            let mut nc = NestLoudsTrieConfig::default();
+            if preset == "bfts_fast" { nc.set_optimization_flag(OptimizationFlags::ENABLE_FAST_SEARCH, true); }
+            if preset == "bfts_q" { nc.enable_queue_compression = true; }
+            let samples: Vec<Vec<u8>> = TRAIN_TEXT.chunks(60).map(|c| c.to_vec()).collect();
+            return if preset == "bfv8" { DictZipBlobStore::build_from_vec_u8(TRAIN_TEXT, &nc) } else { DictZipBlobStore::build_from_training_samples(&samples, &nc) }.map_err(e);
+        }
         _ => {}
     }
     let mut b = DictZipBlobStoreBuilder::with_config(cfg).map_err(|e| e.to_string())?;
@@ -203,7 +577,8 @@ fn dictzip_store(preset: &str) -> Result<DictZipBlobStore, String> {
     b.finish().map_err(|e| e.to_string())
 }
 
-struct Env { dir: String, n: u64 }
+/// `initial`: what the base store holds before the first operation (stores built from existing data)
+struct Env { dir: String, n: u64, initial: Vec<(RecordId, Vec<u8>)> }
 
 /// Build a store stack from its spec "outer/inner/.../base".
 fn make_store(spec: &str, env: &mut Env) -> Result<Box<dyn DynStore>, String> { make_store_at(spec, env, 0) }
@@ -216,6 +591,11 @@ fn make_store_at(spec: &str, env: &mut Env, depth: usize) -> Result<Box<dyn DynS
             "zstd1" => Box::new(ZstdBlobStore::new(inner, 1)),
             "zstd3" => Box::new(ZstdBlobStore::with_default_compression(inner)),
             "zstd19" => Box::new(ZstdBlobStore::new(inner, 19)),
+            // levels outside 1..=22 are clamped by the constructor
+            "zstd0" => Box::new(ZstdBlobStore::new(inner, 0)),
+            "zstdneg" => Box::new(ZstdBlobStore::new(inner, -7)),
+            "zstd22" => Box::new(ZstdBlobStore::new(inner, 22)),
+            "zstd99" => Box::new(ZstdBlobStore::new(inner, 99)),
             "huffman" => Box::new(HuffmanBlobStore::new(inner)),
             "huffman_t" => { let mut h = HuffmanBlobStore::new(inner); h.add_training_data(TRAIN_TEXT); h.build_tree().map_err(e)?; Box::new(h) }
             "rans" => Box::new(RansBlobStore::new(inner)),
@@ -233,33 +613,84 @@ fn make_store_at(spec: &str, env: &mut Env, depth: usize) -> Result<Box<dyn DynS
                 if head == "cached_off" { c.disable_cache(); }
                 Box::new(c)
             }
+            // the other constructors: new (write-through), the performance preset, a page cache shared with a sibling store
+            "cached_new" => Box::new(CachedBlobStore::new(inner, PageCacheConfig::balanced().with_capacity(256 * 1024)).map_err(e)?),
+            "cached_perf" => Box::new(CachedBlobStore::with_write_strategy(inner, PageCacheConfig::performance_optimized().with_capacity(512 * 1024).with_huge_pages(false), CacheWriteStrategy::WriteBack).map_err(e)?),
+            "cached_default" => Box::new(CachedBlobStore::new(inner, PageCacheConfig::default().with_capacity(128 * 1024).with_prefetch(false).with_statistics(false)).map_err(e)?),
+            "cached_shared" | "cached_shared_wb" | "cached_shared_wa" => {
+                let cache = std::sync::Arc::new(zipora::cache::LruPageCache::new(PageCacheConfig::balanced().with_capacity(256 * 1024)).map_err(e)?);
+                // a sibling store on the same cache that has written to the same offsets
+                let mut sib = CachedBlobStore::with_cache_and_strategy(MemoryBlobStore::new(), cache.clone(), CacheWriteStrategy::WriteBack).map_err(e)?;
+                for k in 0..3u8 { let _ = sib.put(&vec![0xA0 | k; 700 * (k as usize + 1)]); }
+                let _ = sib.get(1);
+                std::mem::forget(sib);
+                match head {
+                    "cached_shared" => Box::new(CachedBlobStore::with_cache(inner, cache).map_err(e)?),
+                    "cached_shared_wb" => Box::new(CachedBlobStore::with_cache_and_strategy(inner, cache, CacheWriteStrategy::WriteBack).map_err(e)?),
+                    _ => Box::new(CachedBlobStore::with_cache_and_strategy(inner, cache, CacheWriteStrategy::WriteAround).map_err(e)?),
+                }
+            }
             _ => return Err(format!("unknown wrapper {}", head)),
         });
     }
     Ok(match head {
         "memory" => Box::new(MemoryBlobStore::new()),
         "memory_cap" => Box::new(MemoryBlobStore::with_capacity(4)),
-        "plain" => {
+        "plain" | "plain_b" => {
             env.n += 1;
             let d = format!("{}/plain_{}", env.dir, env.n);
             Box::new(PlainBlobStore::create_new(&d).map_err(e)?)
         }
+        "memory_default" => Box::new(MemoryBlobStore::default()),
+        "memory_fd" | "memory_fd0" => {
+            // from_data: the store starts with records under ids of the caller's choosing
+            let mut m: HashMap<RecordId, Vec<u8>> = HashMap::new();
+            if head == "memory_fd" { for (id, d) in [(2u32, b"two".to_vec()), (7, vec![]), (40, vec![7u8; 300])] { m.insert(id, d); } }
+            env.initial = m.iter().map(|(k, v)| (*k, v.clone())).collect();
+            Box::new(MemoryBlobStore::from_data(m))
+        }
+        "zstd3_typed" => Box::new(ZstdBlobStore::with_default_compression(MemoryBlobStore::new())),
+        "plain_new" => {
+            // new() on a directory that does not exist yet
+            env.n += 1;
+            let d = format!("{}/plain_{}", env.dir, env.n);
+            let _ = std::fs::remove_dir_all(&d);
+            Box::new(PlainBlobStore::new(format!("{}/sub/dir", d)).map_err(e)?)
+        }
+        "plain_over" => {
+            // create_new() on a directory that holds records of an earlier store: they must be gone
+            env.n += 1;
+            let d = format!("{}/plain_{}", env.dir, env.n);
+            { let mut old = PlainBlobStore::create_new(&d).map_err(e)?; for k in 0..4u8 { let _ = old.put(&[k; 5]); } }
+            Box::new(PlainBlobStore::create_new(&d).map_err(e)?)
+        }
         "zero" => Box::new(ZeroLengthBlobStore::new()),
+        "zero_default" => Box::new(ZeroLengthBlobStore::default()),
+        "zero_finish" => { env.initial = (0..3).map(|i| (i as RecordId, vec![])).collect(); Box::new(ZeroLengthBlobStore::finish(3)) }
+        "nlt_default" => Box::new(Nt::default().map_err(e)?),
+        "nlt_cfgb" => {
+            // TrieBlobStoreConfig::builder(): a two-entry key cache (evicts on every third key), statistics off, every switch flipped
+            let cfg = TrieBlobStoreConfig::builder().trie_config(zipora::fsa::ZiporaTrieConfig::default()).blob_config(ZipOffsetBlobStoreConfig::performance_optimized())
+                .memory_config(zipora::memory::SecurePoolConfig::small_secure()).key_compression(false).batch_optimization(false).key_cache_size(2).statistics(false).build().map_err(e)?;
+            Box::new(Nt::new(cfg).map_err(e)?)
+        }
+        "nlt_nocache" => Box::new(Nt::new(TrieBlobStoreConfig::builder().key_cache_size(0).blob_config(ZipOffsetBlobStoreConfig { compress_level: 0, checksum_level: 0, offset_config: SortedUintVecConfig::performance_optimized(), ..Default::default() }).build().map_err(e)?).map_err(e)?),
+        "nlt_new" => Box::new(Nt::new(TrieBlobStoreConfig::new()).map_err(e)?),
         "nlt" => Box::new(Nt::new(TrieBlobStoreConfig::default()).map_err(e)?),
         "nlt_perf" => Box::new(Nt::new(TrieBlobStoreConfig::performance_optimized()).map_err(e)?),
         "nlt_mem" => Box::new(Nt::new(TrieBlobStoreConfig::memory_optimized()).map_err(e)?),
         "nlt_sec" => Box::new(Nt::new(TrieBlobStoreConfig::security_optimized()).map_err(e)?),
-        s if s.starts_with("dictzip") => Box::new(dictzip_store(s.strip_prefix("dictzip_").unwrap_or("default"))?),
+        s if s.starts_with("dictzip") => { let d = env.dir.clone(); Box::new(dictzip_store(s.strip_prefix("dictzip_").unwrap_or("default"), &d)?) }
         _ => return Err(format!("unknown store {}", head)),
     })
 }
 
 fn base_of(spec: &str) -> &str { spec.rsplit('/').next().unwrap_or(spec) }
-fn supports_remove(spec: &str) -> bool { base_of(spec) != "zero" }
+fn supports_remove(spec: &str) -> bool { !base_of(spec).starts_with("zero") }
 /// May `put(data)` be refused (Err) by this stack without violating the property?
 fn put_may_refuse(spec: &str, data: &[u8]) -> bool {
     let b = base_of(spec);
-    (b == "zero" && spec == "zero" && !data.is_empty()) || (b.starts_with("dictzip") && spec == b && data.is_empty())
+    (b.starts_with("zero") && !data.is_empty()) || (b.starts_with("dictzip") && spec == b && data.is_empty())
 }
 
 // ---------------------------------------------------------------------------------------------
@@ -278,8 +709,15 @@ fn rec_bytes(v: &Value) -> Vec<u8> {
         1 => r.bytes(len),
         2 => { let mut out = Vec::with_capacity(len + 8); while out.len() < len { out.extend_from_slice(WORDS[r.below(12) as usize].as_bytes()); } out.truncate(len); out }
         3 => (0..len).map(|i| (i as u64 + seed) as u8).collect(),
+        // a piece of the text the DictZip dictionaries / Huffman stores are trained on (wraps around): matches the dictionary well
+        5 => (0..len).map(|i| TRAIN_TEXT[(seed as usize + i) % TRAIN_TEXT.len()]).collect(),
         _ => (0..len).map(|_| if r.chance(7, 8) { b'a' } else { b'b' }).collect(),
     }
+}
+/// n records of 0..max_len bytes (every 5th one empty, every 7th one of the full length), contents from `seed`
+fn gen_many(n: u64, max_len: u64, seed: u64) -> Vec<Vec<u8>> {
+    let mut r = Rng::new(seed ^ 0x6E6);
+    (0..n).map(|i| { let len = if i % 5 == 4 { 0 } else if i % 7 == 6 { max_len } else { r.below(max_len + 1) }; let b = (i as u8).wrapping_mul(31).wrapping_add(seed as u8); (0..len).map(|j| b.wrapping_add(j as u8)).collect() }).collect()
 }
 fn gen_rec(r: &mut Rng, common_len: u64) -> Value {
     let len = match r.below(16) {
@@ -291,7 +729,7 @@ fn gen_rec(r: &mut Rng, common_len: u64) -> Value {
         9 => r.range(1000, 5000),
         _ => r.below(80),
     };
-    let kind = match r.below(8) { 0 => 0, 1 | 2 => 1, 3 | 4 => 2, 5 => 3, _ => 4 };
+    let kind = match r.below(9) { 0 => 0, 1 | 2 => 1, 3 | 4 => 2, 5 => 3, 6 => 5, _ => 4 };
     json!([kind, len, r.below(1000)])
 }
 
@@ -342,6 +780,13 @@ fn probe(st: &dyn BlobStore, id: RecordId, shadow: &HashMap<RecordId, Vec<u8>>) 
     None
 }
 
+/// Compare the store with the shadow on every id ever issued and on len().
+fn sweep(st: &dyn BlobStore, ever: &HashSet<RecordId>, shadow: &HashMap<RecordId, Vec<u8>>) -> Option<String> {
+    let mut ids: Vec<RecordId> = ever.iter().copied().collect(); ids.sort();
+    for id in ids { if let Some(m) = probe(st, id, shadow) { return Some(m); } }
+    match guarded(|| st.len()) { Ok(n) if n == shadow.len() => None, Ok(n) => Some(format!("len() = {} but {} records are live", n, shadow.len())), Err(p) => Some(format!("len panicked: {}", p)) }
+}
+
 /// Finding classes of the unchanged tree (decidable predicates on the case, see findings/C03.txt).
 fn history_class(_spec: &str, _detail: &str) -> Option<&'static str> { None }
 
@@ -376,7 +821,8 @@ fn xmodel_of(spec: &str) -> Option<(Vec<WKind>, String)> {
         "zero" => "KZero".to_string(),
         s if s.starts_with("dictzip") => {
             // the two parameters the bookkeeping model reads; the observations do not depend on them
-            let (min, ent) = match s.strip_prefix("dictzip_").unwrap_or("default") { "small10" => (10, false), "huff1" | "huff4" | "fse" => (10, true), "text" => (32, false), "binary" => (128, false), "log" => (16, false), "realtime" => (256, false), _ => (64, false) };
+            // (the constructors and options added for oracle breadth are judged by the oracle only)
+            let (min, ent) = match s.strip_prefix("dictzip_").unwrap_or("default") { "small10" => (10, false), "huff1" | "huff4" | "fse" => (10, true), "text" => (32, false), "binary" => (128, false), "log" => (16, false), "realtime" => (256, false), "default" => (64, false), _ => return None };
             format!("(KDictZip {{| dz_min := {}; dz_entropy := {} |}} false)", min, ent)
         }
         _ => return None,
@@ -471,10 +917,21 @@ fn run_history(cx: &mut Ctx, case: &Value, force_coq: bool) {
         Ok(Err(e)) => { cx.sum.fail(&cell, None, case.clone(), &format!("store construction failed: {}", e)); return; }
         Err(p) => { cx.sum.fail(&cell, None, case.clone(), &format!("store construction panicked: {}", p)); return; }
     };
-    let plain_dir = if base_of(&spec) == "plain" { Some(format!("{}/plain_{}", cx.env.dir, cx.env.n)) } else { None };
+    let plain_dir = if base_of(&spec).starts_with("plain") { Some(format!("{}/plain_{}", cx.env.dir, cx.env.n)) } else { None };
     let mut shadow: HashMap<RecordId, Vec<u8>> = HashMap::new();
     let mut issued: Vec<RecordId> = vec![];
     let mut ever: HashSet<RecordId> = HashSet::new();
+    // stores built from existing data start with content
+    let mut initial = std::mem::take(&mut cx.env.initial);
+    initial.sort();
+    let seeded = !initial.is_empty();
+    for (id, d) in initial { shadow.insert(id, d); issued.push(id); ever.insert(id); }
+    let hk_dir = cx.env.dir.clone();
+    let mut finalized = false;          // after finalize(): writes may be refused
+    let mut removed_any = false;
+    let mut all_put: Vec<Vec<u8>> = vec![];
+    // a copy taken by Clone and the content it must keep, whatever happens to the other copy afterwards
+    let mut snap: Option<(Box<dyn DynStore>, HashMap<RecordId, Vec<u8>>)> = None;
     let mut failure: Option<String> = None;
     let mut obs: Vec<String> = vec![];   // observations for the Coq model (memory cell only)
     let mut coq_ops: Vec<String> = vec![];
@@ -493,7 +950,7 @@ fn run_history(cx: &mut Ctx, case: &Value, force_coq: bool) {
                 if data.is_empty() { cx.sum.dist("put_empty_records"); }
                 match guarded(|| st.bs().put(&data)) {
                     Err(p) => { failure = fail(format!("put panicked: {}", p)); break 'ops; }
-                    Ok(Err(e)) => { if !put_may_refuse(&spec, &data) { failure = fail(format!("put of a {}-byte record refused: {}", data.len(), e)); break 'ops; }
+                    Ok(Err(e)) => { if !put_may_refuse(&spec, &data) && !finalized { failure = fail(format!("put of a {}-byte record refused: {}", data.len(), e)); break 'ops; }
                                     xt!(|x: &mut XTrace| { x.absorb(&[], false); x.spec_too = false; x.push(format!("XO (MPut {})", coq_bytes(&data)), "[]%N".into()); });
                                     cx.sum.dist("put_refused_allowed"); }
                     Ok(Ok(id)) => {
@@ -501,6 +958,7 @@ fn run_history(cx: &mut Ctx, case: &Value, force_coq: bool) {
                         coq_ops.push(format!("MPut {}", coq_bytes(&data)));
                         obs.push(format!("[{}]%N", id));
                         xt!(|x: &mut XTrace| { x.absorb(std::slice::from_ref(&data), true); x.push(format!("XO (MPut {})", coq_bytes(&data)), format!("[{}]%N", id)); });
+                        all_put.push(data.clone());
                         shadow.insert(id, data); issued.push(id); ever.insert(id);
                     }
                 }
@@ -512,6 +970,7 @@ fn run_history(cx: &mut Ctx, case: &Value, force_coq: bool) {
                 let rc = recs.clone();
                 match guarded(|| st.put_batch_dyn(rc)) {
                     Err(p) => { failure = fail(format!("put_batch panicked: {}", p)); break 'ops; }
+                    Ok(Err(_)) if finalized => { xt!(|x: &mut XTrace| x.ok = false); }
                     Ok(Err(e)) => { failure = fail(format!("put_batch refused: {}", e)); break 'ops; }
                     Ok(Ok(ids)) => {
                         if ids.len() != recs.len() { failure = fail(format!("put_batch of {} records returned {} ids", recs.len(), ids.len())); break 'ops; }
@@ -520,9 +979,36 @@ fn run_history(cx: &mut Ctx, case: &Value, force_coq: bool) {
                         xt!(|x: &mut XTrace| { x.absorb(&recs, true); x.push(format!("XO (MBatch [{}])", recs.iter().map(|d| coq_bytes(d)).collect::<Vec<_>>().join("; ")), coq_n_list(ids.iter().map(|&i| i as u128))); });
                         for (id, d) in ids.iter().zip(recs.into_iter()) {
                             if shadow.contains_key(id) { failure = fail(format!("put_batch returned id {} which is the id of another live record", id)); break 'ops; }
+                            all_put.push(d.clone());
                             shadow.insert(*id, d); issued.push(*id); ever.insert(*id);
                         }
                     }
+                }
+            }
+            "bulk" => {
+                // many records at once (described by [n, max_len, seed]): through put_batch where there is one, else put by put
+                let mut recs = gen_many(op[1].as_u64().unwrap_or(0), op[2].as_u64().unwrap_or(1), op[3].as_u64().unwrap_or(0));
+                recs.retain(|d| !put_may_refuse(&spec, d));
+                coq_ok = false; xt!(|x: &mut XTrace| x.ok = false);
+                let ids: Vec<RecordId> = if st.has_batch() {
+                    let rc = recs.clone();
+                    match guarded(|| st.put_batch_dyn(rc)) {
+                        Err(p) => { failure = fail(format!("put_batch of {} records panicked: {}", recs.len(), p)); break 'ops; }
+                        Ok(Err(_)) if finalized => continue,
+                        Ok(Err(e)) => { failure = fail(format!("put_batch of {} records refused: {}", recs.len(), e)); break 'ops; }
+                        Ok(Ok(ids)) => ids,
+                    }
+                } else {
+                    let mut ids = vec![];
+                    for d in &recs { match guarded(|| st.bs().put(d)) { Ok(Ok(id)) => ids.push(id), Ok(Err(_)) if finalized => {} , r => { failure = fail(format!("put #{} of the bulk refused: {:?}", ids.len(), r.map(|x| x.map_err(|e| e.to_string())))); break 'ops; } } }
+                    ids
+                };
+                let _ = xlog_take();
+                if ids.len() != recs.len() { if finalized { continue; } failure = fail(format!("{} records stored, {} ids returned", recs.len(), ids.len())); break 'ops; }
+                cx.sum.dist("bulk_ops");
+                for (id, d) in ids.iter().zip(recs.into_iter()) {
+                    if shadow.contains_key(id) { failure = fail(format!("bulk put returned id {} which is the id of another live record", id)); break 'ops; }
+                    all_put.push(d.clone()); shadow.insert(*id, d); issued.push(*id); ever.insert(*id);
                 }
             }
             "rm" => {
@@ -530,8 +1016,8 @@ fn run_history(cx: &mut Ctx, case: &Value, force_coq: bool) {
                 let live = shadow.contains_key(&id);
                 match guarded(|| st.bs().remove(id)) {
                     Err(p) => { failure = fail(format!("remove({}) panicked: {}", id, p)); break 'ops; }
-                    Ok(Ok(())) => { shadow.remove(&id); obs.push("[1]%N".into()); xt!(|x: &mut XTrace| { x.absorb(&[], false); x.push(format!("XO (MRemove {})", id), "[1]%N".into()); }); }
-                    Ok(Err(e)) => { if live && supports_remove(&spec) { failure = fail(format!("remove({}) of a live record failed: {}", id, e)); break 'ops; } obs.push("[0]%N".into());
+                    Ok(Ok(())) => { shadow.remove(&id); removed_any = true; obs.push("[1]%N".into()); xt!(|x: &mut XTrace| { x.absorb(&[], false); x.push(format!("XO (MRemove {})", id), "[1]%N".into()); }); }
+                    Ok(Err(e)) => { if live && supports_remove(&spec) && !finalized { failure = fail(format!("remove({}) of a live record failed: {}", id, e)); break 'ops; } obs.push("[0]%N".into());
                                     xt!(|x: &mut XTrace| { x.absorb(&[], false); if live { x.spec_too = false; } x.push(format!("XO (MRemove {})", id), "[0]%N".into()); }); }
                 }
                 coq_ops.push(format!("MRemove {}", id));
@@ -539,6 +1025,8 @@ fn run_history(cx: &mut Ctx, case: &Value, force_coq: bool) {
             "rmb" => {
                 // remove_batch: every listed live id is gone afterwards and the count says how many were removed
                 let ids: Vec<RecordId> = op[1].as_array().map(|a| a.iter().map(|x| resolve(x, &issued)).collect()).unwrap_or_default();
+                if finalized { continue; }
+                removed_any = true;
                 if !st.has_batch() || !supports_remove(&spec) {
                     for &id in &ids {
                         let live = shadow.contains_key(&id);
@@ -627,6 +1115,103 @@ fn run_history(cx: &mut Ctx, case: &Value, force_coq: bool) {
                 for id in ids { if let Some(m) = probe(st.bs_ref(), id, &shadow) { failure = fail(format!("after save/load: {}", m)); break 'ops; } }
                 if st.bs_ref().len() != shadow.len() { failure = fail(format!("after save/load: len() = {} but {} records are live", st.bs_ref().len(), shadow.len())); break 'ops; }
             }
+            // ---- secondary entry points: iteration, housekeeping, Clone, clear, retraining, re-wrapping, finalize ----
+            "iter" => {
+                // the store's own iteration lists exactly the live ids (each once, in any order) with their records
+                match guarded(|| st.iter_ids_dyn()) {
+                    Err(p) => { failure = fail(format!("iter_ids panicked: {}", p)); break 'ops; }
+                    Ok(None) => continue,
+                    Ok(Some(mut ids)) => {
+                        cx.sum.dist("iter_ops");
+                        ids.sort();
+                        if ids.windows(2).any(|w| w[0] == w[1]) { failure = fail(format!("iter_ids lists an id twice: {:?}", ids)); break 'ops; }
+                        let mut want: Vec<RecordId> = shadow.keys().copied().collect(); want.sort();
+                        if ids != want { failure = fail(format!("iter_ids lists {:?} but the live ids are {:?}", ids, want)); break 'ops; }
+                    }
+                }
+                match guarded(|| st.iter_blobs_dyn()) {
+                    Err(p) => { failure = fail(format!("iter_blobs panicked: {}", p)); break 'ops; }
+                    Ok(None) => {}
+                    Ok(Some(Err(e))) => { failure = fail(e); break 'ops; }
+                    Ok(Some(Ok(v))) => {
+                        if v.len() != shadow.len() { failure = fail(format!("iter_blobs yields {} records but {} are live", v.len(), shadow.len())); break 'ops; }
+                        let mut seen: HashSet<RecordId> = HashSet::new();
+                        for (id, d) in &v {
+                            if !seen.insert(*id) { failure = fail(format!("iter_blobs yields id {} twice", id)); break 'ops; }
+                            if shadow.get(id) != Some(d) { failure = fail(format!("iter_blobs yields ({}, {}) but the shadow holds {:?}", id, hex(d), shadow.get(id).map(|x| hex(x)))); break 'ops; }
+                        }
+                    }
+                }
+                xt!(|x: &mut XTrace| x.absorb(&[], false));
+            }
+            "hk" => {
+                let k = op[1].as_u64().unwrap_or(0);
+                match guarded(|| st.housekeeping(k, &hk_dir)) {
+                    Ok((name, neutral)) => { if name != "none" { cx.sum.dist(&format!("hk:{}", name)); } if !neutral { coq_ok = false; xt!(|x: &mut XTrace| x.ok = false); } }
+                    // not a question the property asks; what it leaves behind is judged by the operations that follow
+                    Err(_) => { cx.sum.dist("hk_panicked"); coq_ok = false; xt!(|x: &mut XTrace| x.ok = false); }
+                }
+                xt!(|x: &mut XTrace| x.absorb(&[], false));
+            }
+            "clone" => {
+                let c = match guarded(|| st.clone_dyn()) { Err(p) => { failure = fail(format!("clone panicked: {}", p)); break 'ops; } Ok(None) => continue, Ok(Some(c)) => c };
+                cx.sum.dist("clone_ops");
+                if let Some((old, osh)) = snap.take() { if let Some(m) = sweep(old.bs_ref(), &ever, &osh) { failure = fail(format!("an earlier copy changed while the other copy was used: {}", m)); break 'ops; } }
+                if let Some(m) = sweep(c.bs_ref(), &ever, &shadow) { failure = fail(format!("the copy made by clone() differs from the original: {}", m)); break 'ops; }
+                // continue on the copy or on the original; the other one must keep today's content
+                if op[1].as_u64().unwrap_or(0) % 2 == 1 { let orig = std::mem::replace(&mut st, c); snap = Some((orig, shadow.clone())); } else { snap = Some((c, shadow.clone())); }
+                coq_ok = false;
+            }
+            "clear" => {
+                let k = op[1].as_u64().unwrap_or(0);
+                match guarded(|| st.clear_dyn(k, &hk_dir)) {
+                    Err(p) => { failure = fail(format!("clear panicked: {}", p)); break 'ops; }
+                    Ok(None) => continue,
+                    Ok(Some(Err(e))) => { failure = fail(format!("the store's clearing operation failed: {}", e)); break 'ops; }
+                    Ok(Some(Ok(name))) => { cx.sum.dist(&format!("clear:{}", name)); shadow.clear(); removed_any = true; coq_ok = false; xt!(|x: &mut XTrace| x.ok = false); }
+                }
+                let mut ids: Vec<RecordId> = ever.iter().copied().collect(); ids.sort();
+                for id in ids { if let Some(m) = probe(st.bs_ref(), id, &shadow) { failure = fail(format!("after clearing: {}", m)); break 'ops; } }
+            }
+            "retrain" => {
+                let k = op[1].as_u64().unwrap_or(0);
+                match guarded(|| st.retrain_dyn(k)) {
+                    Err(p) => { failure = fail(format!("retraining panicked: {}", p)); break 'ops; }
+                    Ok(None) => continue,
+                    Ok(Some(r)) => { cx.sum.dist(&format!("retrain:{}", r.unwrap_or("failed"))); coq_ok = false; xt!(|x: &mut XTrace| x.ok = false); }
+                }
+                // whatever was stored before must read back unchanged under the new codec state
+                if let Some(m) = sweep(st.bs_ref(), &ever, &shadow) { failure = fail(format!("after retraining: {}", m)); break 'ops; }
+            }
+            "rewrap" => {
+                let k = op[1].as_u64().unwrap_or(0);
+                match guarded(move || st.rewrap(k)) {
+                    Err(p) => { failure = fail(format!("into_inner / re-wrapping panicked: {}", p)); st = Box::new(MemoryBlobStore::new()); break 'ops; }
+                    Ok(Err(e)) => { failure = fail(format!("re-wrapping failed: {}", e)); st = Box::new(MemoryBlobStore::new()); break 'ops; }
+                    Ok(Ok((s2, name))) => { st = s2; if name != "none" { cx.sum.dist(&format!("rewrap:{}", name)); coq_ok = false; xt!(|x: &mut XTrace| x.ok = false);
+                        if let Some(m) = sweep(st.bs_ref(), &ever, &shadow) { failure = fail(format!("after {}: {}", name, m)); break 'ops; } } }
+                }
+            }
+            "finalize" => {
+                match guarded(|| st.finalize_dyn()) {
+                    Err(p) => { failure = fail(format!("finalize panicked: {}", p)); break 'ops; }
+                    Ok(None) => continue,
+                    // the bulk store behind it has the capacity limits of its offset index: a refusal is allowed, the store must go on working
+                    Ok(Some(Err(_))) => { cx.sum.dist("finalize_refused"); coq_ok = false; xt!(|x: &mut XTrace| x.ok = false); }
+                    Ok(Some(Ok(()))) => {
+                        cx.sum.dist("finalize_ops"); finalized = true; coq_ok = false; xt!(|x: &mut XTrace| x.ok = false);
+                        if !removed_any && !seeded {
+                            match guarded(|| st.finalized_records()) {
+                                Err(p) => { failure = fail(format!("reading the finalized bulk store panicked: {}", p)); break 'ops; }
+                                Ok(Some(Err(e))) => { failure = fail(format!("the bulk store built by finalize(): {}", e)); break 'ops; }
+                                Ok(Some(Ok(v))) => if v != all_put { failure = fail(format!("the bulk store built by finalize() holds {} records that are not the {} records put, in order", v.len(), all_put.len())); break 'ops; },
+                                Ok(None) => {}
+                            }
+                        }
+                    }
+                }
+                if let Some(m) = sweep(st.bs_ref(), &ever, &shadow) { failure = fail(format!("after finalize: {}", m)); break 'ops; }
+            }
             _ => {}
         }
         // cheap global invariant after every operation
@@ -645,6 +1230,9 @@ fn run_history(cx: &mut Ctx, case: &Value, force_coq: bool) {
         for id in ids {
             if let Some(m) = probe(st.bs_ref(), id, &shadow) { failure = Some(format!("final sweep: {}", m)); break; }
         }
+    }
+    if failure.is_none() {
+        if let Some((old, osh)) = snap.take() { if let Some(m) = sweep(old.bs_ref(), &ever, &osh) { failure = Some(format!("a copy made by clone() changed while the other copy was used: {}", m)); } }
     }
     cx.sum.dist(&format!("history_len_bucket={}", (ops.len() / 10) * 10));
     cx.sum.dist_max("max_live_records", shadow.len() as u64);
@@ -687,12 +1275,12 @@ fn gen_history(r: &mut Rng, spec: &str, max_ops: u64) -> Value { gen_history_siz
 fn gen_history_sized(r: &mut Rng, spec: &str, max_ops: u64, small: bool) -> Value {
     let n = r.range(3, max_ops);
     let common = *r.pick(&[0u64, 1, 5, 16, 64, 100]);
-    let gen_rec = |r: &mut Rng, common: u64| -> Value { if small { json!([r.below(5), *r.pick(&[0u64, 0, 1, 2, 3, 5, 5, 8, 13, 40]), r.below(100)]) } else { gen_rec(r, common) } };
-    let zero = base_of(spec) == "zero";
+    let gen_rec = |r: &mut Rng, common: u64| -> Value { if small { json!([r.below(6), *r.pick(&[0u64, 0, 1, 2, 3, 5, 5, 8, 13, 40]), r.below(100)]) } else { gen_rec(r, common) } };
+    let zero = base_of(spec).starts_with("zero");
     let mut ops: Vec<Value> = vec![];
     let mut issued = 0usize;
     for _ in 0..n {
-        match r.below(100) {
+        match r.below(123) {
             0..=34 => { let rec = if zero && r.chance(5, 6) { json!([0, 0, 0]) } else { gen_rec(r, common) }; ops.push(json!(["put", rec])); issued += 1; }
             35..=42 => { let k = r.range(0, 5); let recs: Vec<Value> = (0..k).map(|_| if zero { json!([0, 0, 0]) } else { gen_rec(r, common) }).collect(); issued += k as usize; ops.push(json!(["batch", recs])); }
             43..=55 => ops.push(json!(["rm", gen_idref(r, issued)])),
@@ -705,9 +1293,86 @@ fn gen_history_sized(r: &mut Rng, spec: &str, max_ops: u64, small: bool) -> Valu
             80..=85 => ops.push(json!(["has", gen_idref(r, issued)])),
             86..=91 => ops.push(json!(["size", gen_idref(r, issued)])),
             92..=96 => ops.push(json!(["len"])),
-            _ => ops.push(json!(["reopen"])),
+            97..=99 => ops.push(json!(["reopen"])),
+            // secondary entry points, mixed into the history so that later operations read what they leave behind
+            100..=105 => ops.push(json!(["iter"])),
+            106..=113 => ops.push(json!(["hk", r.below(5000)])),
+            _ if small => ops.push(json!(["get", gen_idref(r, issued)])),
+            114 | 115 => ops.push(json!(["clone", r.below(2)])),
+            116 => if r.chance(1, 2) { ops.push(json!(["clear", r.below(4)])) } else { ops.push(json!(["iter"])) },
+            117 | 118 => ops.push(json!(["retrain", r.below(4)])),
+            119 | 120 => ops.push(json!(["rewrap", r.below(6)])),
+            _ => if r.chance(1, 2) { ops.push(json!(["finalize"])) } else { ops.push(json!(["hk", r.below(5000)])) },
         }
     }
+    json!({"cell": spec, "kind": "history", "ops": ops})
+}
+
+/// Deterministic history with thousands of records: caches evict, maps grow, counters leave the small range; then the usual
+/// operations on ids from the beginning, the middle and the end.
+fn gen_bulk_history(spec: &str, n: u64, max_len: u64, salt: u64) -> Value {
+    let n1 = n as usize;
+    let mut ops: Vec<Value> = vec![json!(["put", [2, 30, salt]]), json!(["bulk", n, max_len, salt]), json!(["len"])];
+    for k in [0usize, 1, n1 / 2, n1 - 1, n1, n1 + 1] { ops.push(json!(["get", {"i": k}])); }
+    ops.push(json!(["rmb", [{"i": 1}, {"i": n1 / 2}, {"i": n1}]]));
+    ops.push(json!(["hk", salt + 11]));
+    ops.push(json!(["bulk", 70, max_len, salt + 1]));
+    ops.push(json!(["iter"]));
+    for k in [0usize, 1, 2, n1 / 2, n1 / 2 + 1, n1, n1 + 3, n1 + 70] { ops.push(json!(["get", {"i": k}])); }
+    ops.push(json!(["rm", {"i": 0}]));
+    ops.push(json!(["finalize"]));
+    ops.push(json!(["getb", [{"i": 0}, {"i": 2}, {"i": n1 + 5}]]));
+    ops.push(json!(["reopen"]));
+    ops.push(json!(["len"]));
+    json!({"cell": spec, "kind": "history", "ops": ops})
+}
+
+/// One scripted history per stack that goes through every secondary entry point the stack has, each followed by ordinary
+/// operations that read what it left behind (operations a stack does not have are skipped by the runner).
+fn gen_entry_history(r: &mut Rng, spec: &str, salt: u64) -> Value {
+    let zero = base_of(spec).starts_with("zero");
+    let mut rec = |r: &mut Rng| if zero { json!([0, 0, 0]) } else { json!([r.below(6), *r.pick(&[1u64, 3, 9, 17, 40, 64, 70, 200, 700]), r.below(1000)]) };
+    let all = |ops: &mut Vec<Value>, n: usize| for k in 0..n { ops.push(json!(["get", {"i": k}])); };
+    let mut ops: Vec<Value> = vec![];
+    ops.push(json!(["put", rec(r)])); ops.push(json!(["put", rec(r)])); ops.push(json!(["batch", [rec(r), rec(r)]]));
+    ops.push(json!(["get", {"i": 0}])); ops.push(json!(["hk", salt * 17 + 1])); ops.push(json!(["iter"]));
+    ops.push(json!(["clone", 0])); ops.push(json!(["put", rec(r)])); ops.push(json!(["rm", {"i": 1}])); ops.push(json!(["hk", salt * 29 + 2])); all(&mut ops, 5);
+    ops.push(json!(["clone", 1])); ops.push(json!(["put", rec(r)])); ops.push(json!(["retrain", salt])); all(&mut ops, 6);
+    ops.push(json!(["put", rec(r)])); ops.push(json!(["rewrap", salt])); ops.push(json!(["put", rec(r)])); ops.push(json!(["getb", [{"i": 7}, {"i": 1}, {"i": 0}]]));
+    ops.push(json!(["hk", salt * 31 + 8])); ops.push(json!(["hk", salt * 37 + 9])); ops.push(json!(["rmb", [{"i": 2}, {"i": 0}]])); ops.push(json!(["iter"])); all(&mut ops, 8);
+    ops.push(json!(["hk", salt * 41 + 10])); ops.push(json!(["put", rec(r)])); ops.push(json!(["reopen"])); ops.push(json!(["retrain", salt + 1])); ops.push(json!(["put", rec(r)])); all(&mut ops, 10);
+    ops.push(json!(["finalize"])); ops.push(json!(["put", rec(r)])); ops.push(json!(["rm", {"i": 3}])); all(&mut ops, 11); ops.push(json!(["iter"])); ops.push(json!(["len"]));
+    ops.push(json!(["clear", salt])); ops.push(json!(["put", rec(r)])); ops.push(json!(["hk", salt * 43 + 5])); all(&mut ops, 12); ops.push(json!(["iter"])); ops.push(json!(["len"]));
+    json!({"cell": spec, "kind": "history", "ops": ops})
+}
+
+/// Deterministic history around the sizes at which something switches inside a store (2^12, 2^16, 2^20, the compression
+/// threshold of the DictZip presets ...): records of exactly those lengths, compressible and not, mixed with the other operations.
+fn gen_threshold_history(spec: &str, sizes: &[u64], salt: u64) -> Value {
+    let mut ops: Vec<Value> = vec![];
+    let mut n = 0usize;
+    for (i, &sz) in sizes.iter().enumerate() {
+        let kind = [4u64, 1, 2, 0, 3][(i + salt as usize) % 5];
+        ops.push(json!(["put", [kind, sz, salt + i as u64]])); n += 1;
+        if i % 3 == 1 { ops.push(json!(["batch", [[1, sz, salt + 50 + i as u64], [2, sz.saturating_sub(1), salt + 60 + i as u64]]])); n += 2; }
+        if i % 4 == 2 { ops.push(json!(["hk", salt * 7 + i as u64])); ops.push(json!(["get", {"i": n - 1}])); }
+    }
+    ops.push(json!(["iter"]));
+    for k in 0..n { ops.push(json!(["get", {"i": k}])); }
+    ops.push(json!(["rm", {"i": n / 2}]));
+    ops.push(json!(["hk", salt + 3]));
+    ops.push(json!(["rmb", [{"i": 0}, {"i": n / 2}]]));
+    ops.push(json!(["retrain", salt]));
+    ops.push(json!(["rewrap", salt]));
+    ops.push(json!(["put", [1, sizes[0], salt + 99]]));
+    ops.push(json!(["getb", [{"i": 1}, {"i": n}, {"i": 0}]]));
+    // (a bulk store behind the stack may refuse records of this size at finalize: the stack must go on working)
+    ops.push(json!(["finalize"]));
+    ops.push(json!(["put", [2, sizes[0] / 2, salt + 98]]));
+    ops.push(json!(["get", {"i": n + 1}]));
+    ops.push(json!(["reopen"]));
+    ops.push(json!(["iter"]));
+    ops.push(json!(["len"]));
     json!({"cell": spec, "kind": "history", "ops": ops})
 }
 
@@ -725,8 +1390,10 @@ fn zo_config(name: &str) -> ZipOffsetBlobStoreConfig {
             let b = s.as_bytes();
             let level = (b.get(1).copied().unwrap_or(b'0') - b'0') as u8;
             let ck = (b.get(3).copied().unwrap_or(b'0') - b'0') as u8;
-            let oc = match b.get(5) { Some(b'p') => SortedUintVecConfig::performance_optimized(), Some(b'm') => SortedUintVecConfig::memory_optimized(), _ => SortedUintVecConfig::default() };
-            ZipOffsetBlobStoreConfig { compress_level: level, checksum_level: ck, offset_config: oc, ..Default::default() }
+            let oc = match b.get(5) { Some(b'p') => SortedUintVecConfig::performance_optimized(), Some(b'm') => SortedUintVecConfig::memory_optimized(), Some(b'x') => b::suv_config(&s[6..]), _ => SortedUintVecConfig::default() };
+            // 'x' configurations also flip the two switches no preset but security_optimized touches
+            let plainer = b.get(5) == Some(&b'x');
+            ZipOffsetBlobStoreConfig { compress_level: level, checksum_level: ck, offset_config: oc, use_secure_memory: !plainer, enable_simd: !plainer }
         }
     }
 }
@@ -772,7 +1439,9 @@ fn seeded_wraps(case: &Value) -> bool {
 
 fn run_build(cx: &mut Ctx, case: &Value, _force_coq: bool) {
     let spec = case["cell"].as_str().unwrap_or("").to_string();
-    let recs: Vec<Vec<u8>> = case["recs"].as_array().map(|a| a.iter().map(rec_bytes).collect()).unwrap_or_default();
+    let mut recs: Vec<Vec<u8>> = case["recs"].as_array().map(|a| a.iter().map(rec_bytes).collect()).unwrap_or_default();
+    // many records are described, not spelled out: [n, max_len, seed]
+    if let Some(g) = case.get("recs_gen") { recs = gen_many(g[0].as_u64().unwrap_or(0), g[1].as_u64().unwrap_or(1), g[2].as_u64().unwrap_or(0)); }
     let cell = format!("build/{}", spec);
     cx.sum.eval(&cell, &case.to_string(), recs.len() >= 2);
     cx.sum.dist(&format!("build_records_bucket={}", match recs.len() { 0 => "0", 1..=9 => "1-9", 10..=63 => "10-63", 64..=129 => "64-129", _ => "130+" }));
@@ -782,43 +1451,31 @@ fn run_build(cx: &mut Ctx, case: &Value, _force_coq: bool) {
     let small = recs.len() <= 140 && recs.iter().map(|d| d.len()).sum::<usize>() <= 1600;
     let recs_coq = format!("[{}]", recs.iter().map(|d| coq_bytes(d)).collect::<Vec<_>>().join("; "));
     let plain_env_dir = cx.env.dir.clone();
+    let mut refused = false;
     let r = guarded(|| -> Option<String> {
         match kind {
             "zipoffset" | "zipoffset_batch" => {
                 let cfg = zo_config(cfgname);
+                let plan = case["plan"].as_u64().unwrap_or(0);
+                // what each record occupies in the content section (record, compressed if configured, + 4 checksum bytes):
+                // measured on a scratch builder, only to decide whether the capacity of the offset index may be exceeded
                 let mut stored_lens = vec![];
-                let store = if kind == "zipoffset" {
-                    let mut b = match ZipOffsetBlobStoreBuilder::with_config(cfg.clone()) { Ok(b) => b, Err(e) => return Some(format!("builder construction failed: {}", e)) };
-                    for (i, d) in recs.iter().enumerate() {
-                        let before = b.content_size();
-                        match b.add_record(d) {
-                            Ok(id) => if id as usize != i { return Some(format!("add_record #{} returned id {}", i, id)); },
-                            Err(e) => return Some(format!("add_record #{} ({} bytes) refused: {}", i, d.len(), e)),
-                        }
-                        stored_lens.push(b.content_size() - before);
-                    }
-                    b.finish()
-                } else {
-                    let bsz = case["batch"].as_u64().unwrap_or(4) as usize;
-                    let mut b = match BatchZipOffsetBlobStoreBuilder::with_config(cfg.clone(), bsz) { Ok(b) => b, Err(e) => return Some(format!("builder construction failed: {}", e)) };
-                    for (i, d) in recs.iter().enumerate() {
-                        match b.add_record(d) {
-                            Ok(id) => if id as usize != i { return Some(format!("batch add_record #{} returned id {}", i, id)); },
-                            Err(e) => return Some(format!("add_record #{} refused: {}", i, e)),
-                        }
-                        stored_lens.push(d.len() + if cfg.checksum_level >= 2 { 4 } else { 0 });
-                    }
-                    b.finish()
-                };
+                if cfg.compress_level == 0 { for d in &recs { stored_lens.push(d.len() + if cfg.checksum_level >= 2 { 4 } else { 0 }); } }
+                else if kind == "zipoffset" {
+                    for d in &recs { match ZipOffsetBlobStoreBuilder::with_config(cfg.clone()) { Ok(mut sb) => { let _ = sb.add_record(d); stored_lens.push(sb.content_size()); } Err(e) => return Some(format!("builder construction failed: {}", e)) } }
+                }
+                let store = if kind == "zipoffset" { b::build_zipoffset(&cfg, cfgname, &recs, plan) } else { b::build_zipoffset_batch(&cfg, cfgname, case["batch"].as_u64().unwrap_or(4) as usize, &recs, plan) };
+                let store = match store { Ok(r) => r, Err(m) => return Some(m) };
                 let store = match store {
                     Ok(s) => s,
                     Err(e) => {
+                        refused = true;
                         if kind == "zipoffset" && zo_capacity_exceeded(&cfg, &stored_lens) {
                             if cfg.compress_level == 0 && small { coq_term = Some(format!("CZip {} {} false []", zcfg_coq(&cfg), recs_coq)); }
                             return None;
                         }
                         if kind == "zipoffset_batch" && cfg.compress_level == 0 && zo_capacity_exceeded(&cfg, &stored_lens) { return None; }
-                        if kind == "zipoffset_batch" && cfg.compress_level > 0 && e.to_string().contains("too large") { return None; }
+                        if kind == "zipoffset_batch" && cfg.compress_level > 0 && e.contains("too large") { return None; }
                         return Some(format!("finish() failed: {}", e));
                     }
                 };
@@ -831,14 +1488,27 @@ fn run_build(cx: &mut Ctx, case: &Value, _force_coq: bool) {
                 if kind == "zipoffset" && cfg.compress_level == 0 && small && bytes.len() <= 2600 {
                     coq_term = Some(format!("CZip {} {} true {}", zcfg_coq(&cfg), recs_coq, coq_bytes(&bytes)));
                 }
-                None
+                // the loaded store goes through the secondary entry points as well (its configuration was rebuilt from the header)
+                if plan % 2 == 1 { if let Some(m) = b::zipoffset_extras(loaded, &recs, plan / 2, &plain_env_dir) { return Some(format!("loaded store: {}", m)); } }
+                b::zipoffset_extras(store, &recs, plan, &plain_env_dir)
             }
+            "zipoffset_empty" => b::zipoffset_empty(&zo_config(cfgname), case["plan"].as_u64().unwrap_or(0)),
+            "suv" => b::check_suv(b::suv_config(cfgname), &b::values_of(case, &recs), case["plan"].as_u64().unwrap_or(0)),
+            "nlt_builder2" => b::nlt_builder_variant(cfgname, &recs, case["plan"].as_u64().unwrap_or(0)),
+            "nlt_from" => b::nlt_build_from(cfgname, &recs, case["plan"].as_u64().unwrap_or(0)),
             "mixed" => {
+                if recs.is_empty() && case["plan"].as_u64().unwrap_or(0) % 2 == 1 { let mut s = MixedLenBlobStore::default(); if let Some(m) = check_built(&s, &recs, "default()") { return Some(m); } return b::readonly_api(&mut s, &recs, "mixed default()"); }
                 let store = if cfgname.is_empty() { MixedLenBlobStore::build_from(&recs) } else { MixedLenBlobStore::build_from_with_fixed_len(&recs, cfgname.parse().unwrap_or(0)) };
                 match store {
-                    Ok(s) => {
+                    Ok(mut s) => {
                         if let Some(m) = check_built(&s, &recs, "built store") { return Some(m); }
+                        // the split the store reports: fixed + variable = n, is_fixed_length(i) exactly when record i has the fixed length
+                        if s.fixed_count() + s.variable_count() != recs.len() { return Some(format!("fixed_count {} + variable_count {} != {} records", s.fixed_count(), s.variable_count(), recs.len())); }
+                        for (i, d) in recs.iter().enumerate() { if s.is_fixed_length(i as RecordId) != (d.len() == s.fixed_len()) { return Some(format!("is_fixed_length({}) = {} but the record has {} bytes and the fixed length is {}", i, s.is_fixed_length(i as RecordId), d.len(), s.fixed_len())); } }
+                        if s.is_fixed_length(recs.len() as RecordId) || s.is_fixed_length(u32::MAX) { return Some("is_fixed_length answers true past the end".into()); }
+                        if let Some(m) = b::readonly_api(&mut s, &recs, "mixed") { return Some(m); }
                         let ms = s.memory_stats();
+                        let _ = (ms.fixed_percentage(), ms.metadata_overhead_percent());
                         if small { coq_term = Some(format!("CMixed {} {} {} {} {}", s.fixed_len(), recs_coq, s.fixed_count(), ms.fixed_values_size, ms.var_values_size)); }
                         None
                     }
@@ -863,10 +1533,17 @@ fn run_build(cx: &mut Ctx, case: &Value, _force_coq: bool) {
             }
             "simplezip" => {
                 let p: Vec<usize> = cfgname.split(',').filter_map(|x| x.parse().ok()).collect();
-                let cfg = if p.len() >= 2 { SimpleZipConfig { min_frag_len: p[0], max_frag_len: p[1], delimiters: if p.len() > 2 { p[2..].iter().map(|&x| x as u8).collect() } else { vec![b'\n', b'\r', b'\t', b' '] } } } else { SimpleZipConfig::default() };
+                let mut cfg = if p.len() >= 2 { SimpleZipConfig { min_frag_len: p[0], max_frag_len: p[1], delimiters: if p.len() > 2 { p[2..].iter().map(|&x| x as u8).collect() } else { vec![b'\n', b'\r', b'\t', b' '] } } } else { SimpleZipConfig::default() };
+                let plan = case["plan"].as_u64().unwrap_or(0);
+                if plan % 2 == 1 { match b::simplezip_config_via_builder(cfg.min_frag_len, cfg.max_frag_len, &cfg.delimiters) { Ok(c) => cfg = c, Err(e) => return if cfg.validate().is_err() { None } else { Some(format!("SimpleZipConfig::builder(): {}", e)) } } }
+                if recs.is_empty() && plan % 4 >= 2 { let mut s = SimpleZipBlobStore::default(); if let Some(m) = check_built(&s, &recs, "default()") { return Some(m); } return b::readonly_api(&mut s, &recs, "simplezip default()"); }
                 match SimpleZipBlobStore::build_from(&recs, &cfg) {
-                    Ok(s) => {
+                    Err(_) if cfg.validate().is_err() => None,
+                    Ok(_) if cfg.validate().is_err() => Some("build_from accepted a configuration that validate() rejects".into()),
+                    Ok(mut s) => {
                         if let Some(m) = check_built(&s, &recs, "built store") { return Some(m); }
+                        if let Some(m) = b::readonly_api(&mut s, &recs, "simplezip") { return Some(m); }
+                        let _ = (s.memory_stats().space_saved_percent(), s.memory_stats().metadata_overhead_percent());
                         if small {
                             coq_term = Some(format!("CSimple {{| q_min := {}; q_max := {}; q_delims := {} |}} {} {} {}", cfg.min_frag_len, cfg.max_frag_len,
                                 coq_bytes(&cfg.delimiters), recs_coq, s.memory_stats().strpool_size, s.num_unique_fragments()));
@@ -889,6 +1566,16 @@ fn run_build(cx: &mut Ctx, case: &Value, _force_coq: bool) {
                 if let Some(x) = check_built(&s, &recs, "from_data") { return Some(x); }
                 // a put after bulk construction must not land on an existing id
                 match s.put(b"x") { Ok(id) => if (id as usize) < recs.len() { return Some(format!("put after from_data reused live id {}", id)); }, Err(e) => return Some(format!("put failed: {}", e)) }
+                // iteration of the seeded store, a copy, and clear(): empty, and ids start over without touching the copy
+                let mut ids: Vec<RecordId> = s.iter_ids().collect(); ids.sort();
+                if ids.len() != recs.len() + 1 || ids[..recs.len()] != (0..recs.len() as u32).collect::<Vec<_>>()[..] { return Some(format!("iter_ids of the seeded store lists {:?}", ids)); }
+                let copy = s.clone();
+                s.clear();
+                if let Some(x) = check_built(&s, &[], "after clear()") { return Some(x); }
+                match s.put(b"y") { Ok(id) => if s.get(id).ok().as_deref() != Some(&b"y"[..]) || s.len() != 1 { return Some("put after clear() does not read back".into()); }, Err(e) => return Some(format!("put after clear() failed: {}", e)) }
+                let mut want2 = recs.clone(); want2.push(b"x".to_vec());
+                if copy.len() != want2.len() { return Some(format!("the copy made before clear() has {} records, not {}", copy.len(), want2.len())); }
+                for (i, d) in recs.iter().enumerate() { if copy.get(i as RecordId).ok().as_ref() != Some(d) { return Some(format!("the copy made before clear() lost record {}", i)); } }
                 None
             }
             "memory_seeded" => {
@@ -976,6 +1663,7 @@ fn run_build(cx: &mut Ctx, case: &Value, _force_coq: bool) {
         }
     });
     match r { Ok(x) => failure = x, Err(p) => failure = Some(format!("panicked: {}", p)) }
+    if refused { cx.sum.dist(&format!("builder_refusals:{}", kind)); }
     if let Some(m) = failure {
         let class = if kind == "memory_seeded" && seeded_wraps(case) { Some("memory_id_wraparound") } else if kind == "plain_seeded" && seeded_wraps(case) { Some("plain_id_wraparound") } else { None };
         cx.sum.fail(&cell, class, case.clone(), &m);
@@ -1005,21 +1693,39 @@ fn gen_records(r: &mut Rng, allow_big: bool) -> Vec<Value> {
     }).collect()
 }
 
+/// a key in a case: a string, or a list of byte values (keys that are not text)
+fn key_bytes(v: &Value) -> Vec<u8> {
+    match v { Value::String(s) => s.as_bytes().to_vec(), Value::Array(a) => a.iter().map(|x| x.as_u64().unwrap_or(0) as u8).collect(), _ => vec![] }
+}
+fn gen_key(r: &mut Rng, wide: bool, long: bool) -> Value {
+    if wide && r.chance(1, 4) {
+        // bytes that are no text, a zero byte inside, a key of 300 bytes, keys that are prefixes of each other
+        match r.below(8) { 0 => json!([0]), 1 => json!([255]), 2 => json!([0, 0]), 3 => json!([255, 254, 0]), 4 => json!([107, 0, 49]), 5 if long => json!(vec![107u8; 300]), 6 if long => json!(vec![107u8; 256]), 5 | 6 => json!(vec![107u8; 255]), _ => json!(vec![107u8; 254]) }
+    } else { json!(*r.pick(&KEYS[..])) }
+}
 const KEYS: [&str; 14] = ["", "a", "ab", "abc", "abd", "b", "ba", "k1", "k10", "k2", "key", "keyed", "z", "zz"];
 fn gen_keyed(r: &mut Rng, spec: &str) -> Value {
     let n = r.range(4, 40);
     let mut ops: Vec<Value> = vec![];
     let mut issued = 0usize;
     for _ in 0..n {
-        let key = *r.pick(&KEYS[..]);
-        match r.below(100) {
+        let key = gen_key(r, spec.ends_with('+'), true);
+        match r.below(if spec.ends_with('+') { 126 } else { 100 }) {
             0..=39 => { ops.push(json!(["putk", key, gen_rec(r, 5)])); issued += 1; }
             40..=44 => { ops.push(json!(["put", gen_rec(r, 5)])); issued += 1; }
             45..=59 => ops.push(json!(["rm", gen_idref(r, issued)])),
             60..=79 => ops.push(json!(["getk", key])),
             80..=89 => ops.push(json!(["prefix", *r.pick(&["", "a", "ab", "k", "k1", "ke", "z", "q"])])),
             90..=95 => ops.push(json!(["get", gen_idref(r, issued)])),
-            _ => ops.push(json!(["len"])),
+            96..=99 => ops.push(json!(["len"])),
+            // the rest of the keyed API
+            100..=107 => ops.push(json!(["hask", key])),
+            108..=111 => { let k = r.range(0, 4); let ents: Vec<Value> = (0..k).map(|_| json!([gen_key(r, true, false), gen_rec(r, 5)])).collect(); issued += k as usize; ops.push(json!(["putkb", ents])); }
+            112..=114 => ops.push(json!(["keys"])),
+            115..=117 => ops.push(json!(["kprefix", *r.pick(&["", "a", "ab", "k", "k1", "ke", "z", "q"])])),
+            118..=120 => ops.push(json!(["iter"])),
+            121..=123 => ops.push(json!(["hk", r.below(5000)])),
+            _ => if r.chance(1, 3) { ops.push(json!(["finalize"])) } else { ops.push(json!(["hask", key])) },
         }
     }
     json!({"cell": spec, "kind": "keyed", "ops": ops})
@@ -1031,9 +1737,17 @@ fn run_keyed(cx: &mut Ctx, case: &Value) {
     let cell = format!("history/{}", spec);
     let ops: Vec<Value> = case["ops"].as_array().cloned().unwrap_or_default();
     cx.sum.eval(&cell, &case.to_string(), ops.len() >= 3);
-    let cfg = match spec.split(':').nth(1).unwrap_or("") { "perf" => TrieBlobStoreConfig::performance_optimized(), "mem" => TrieBlobStoreConfig::memory_optimized(), "sec" => TrieBlobStoreConfig::security_optimized(), _ => TrieBlobStoreConfig::default() };
+    let cfg = match spec.split(':').nth(1).unwrap_or("").trim_end_matches('+') {
+        "perf" => TrieBlobStoreConfig::performance_optimized(), "mem" => TrieBlobStoreConfig::memory_optimized(), "sec" => TrieBlobStoreConfig::security_optimized(),
+        // a two-entry key cache (evicts on every third key), statistics and batch optimisation off
+        "cache2" => match TrieBlobStoreConfig::builder().key_cache_size(2).statistics(false).batch_optimization(false).key_compression(false).build() { Ok(c) => c, Err(e) => { cx.sum.fail(&cell, None, case.clone(), &format!("config builder failed: {}", e)); return; } },
+        "nocache" => match TrieBlobStoreConfig::builder().key_cache_size(0).build() { Ok(c) => c, Err(e) => { cx.sum.fail(&cell, None, case.clone(), &format!("config builder failed: {}", e)); return; } },
+        _ => TrieBlobStoreConfig::default() };
+    let hk_dir = cx.env.dir.clone();
+    let mut hk_names: Vec<&'static str> = vec![];
     let r = guarded(|| -> Option<String> {
         let mut st = match Nt::new(cfg) { Ok(s) => s, Err(e) => return Some(format!("construction failed: {}", e)) };
+        let mut finalized = false;
         let mut shadow: HashMap<RecordId, Vec<u8>> = HashMap::new();
         let mut key_of: HashMap<RecordId, Vec<u8>> = HashMap::new();
         let mut latest: HashMap<Vec<u8>, RecordId> = HashMap::new();   // key -> id of the most recent put under it
@@ -1043,7 +1757,7 @@ fn run_keyed(cx: &mut Ctx, case: &Value) {
             match op[0].as_str().unwrap_or("") {
                 "putk" | "put" => {
                     let keyed = op[0] == "putk";
-                    let key: Vec<u8> = if keyed { op[1].as_str().unwrap_or("").as_bytes().to_vec() } else { vec![] };
+                    let key: Vec<u8> = if keyed { key_bytes(&op[1]) } else { vec![] };
                     let data = rec_bytes(if keyed { &op[2] } else { &op[1] });
                     let res = if keyed { st.put_with_key(&key, &data) } else { st.put(&data) };
                     match res {
@@ -1052,18 +1766,62 @@ fn run_keyed(cx: &mut Ctx, case: &Value) {
                             shadow.insert(id, data); issued.push(id);
                             if keyed { key_of.insert(id, key.clone()); latest.insert(key, id); }
                         }
-                        Err(e) => return at(format!("put refused: {}", e)),
+                        // the LOUDS strategy documents a key limit of 255 bytes: longer keys may be refused (nothing is stored then)
+                        Err(e) => if !finalized && key.len() <= 255 { return at(format!("put refused: {}", e)); },
+                    }
+                }
+                "putkb" => {
+                    // put_batch_with_keys: one fresh id per entry, in order
+                    let ents: Vec<(Vec<u8>, Vec<u8>)> = op[1].as_array().map(|a| a.iter().map(|e| (key_bytes(&e[0]), rec_bytes(&e[1]))).collect()).unwrap_or_default();
+                    match st.put_batch_with_keys(ents.clone()) {
+                        Ok(ids) => {
+                            if ids.len() != ents.len() { return at(format!("put_batch_with_keys of {} entries returned {} ids", ents.len(), ids.len())); }
+                            for (id, (key, data)) in ids.iter().zip(ents.into_iter()) {
+                                if shadow.contains_key(id) { return at(format!("returned id {} which is the id of another live record", id)); }
+                                shadow.insert(*id, data); issued.push(*id); key_of.insert(*id, key.clone()); latest.insert(key, *id);
+                            }
+                        }
+                        Err(e) => if !finalized && !ents.is_empty() { return at(format!("put_batch_with_keys refused: {}", e)); },
                     }
                 }
                 "rm" => {
                     let id = resolve(&op[1], &issued);
                     let live = shadow.contains_key(&id);
-                    match st.remove(id) { Ok(()) => { shadow.remove(&id); } Err(e) => if live { return at(format!("remove({}) of a live record failed: {}", id, e)); } }
+                    match st.remove(id) { Ok(()) => { shadow.remove(&id); } Err(e) => if live && !finalized { return at(format!("remove({}) of a live record failed: {}", id, e)); } }
+                }
+                "hask" => {
+                    let key = key_bytes(&op[1]);
+                    let got = st.contains_key(&key);
+                    let any_live = key_of.iter().any(|(id, kk)| *kk == key && shadow.contains_key(id));
+                    match latest.get(&key) {
+                        Some(id) if shadow.contains_key(id) => if !got { return at(format!("contains_key is false but record {} put under the key is live", id)); },
+                        _ => if got && !any_live { return at("contains_key is true but no live record was put under the key".to_string()); },
+                    }
+                }
+                "keys" | "kprefix" => {
+                    let p: Vec<u8> = if op[0] == "keys" { vec![] } else { key_bytes(&op[1]) };
+                    let got = match if op[0] == "keys" { st.keys() } else { st.keys_with_prefix(&p) } { Ok(v) => v, Err(e) => return at(format!("key listing failed: {}", e)) };
+                    for kk in &got { if !kk.starts_with(&p) { return at(format!("key listing returned {:?} without the prefix", String::from_utf8_lossy(kk))); } }
+                    for (kk, id) in &latest {
+                        if kk.starts_with(&p) && shadow.contains_key(id) && !got.contains(kk) { return at(format!("key listing misses key {:?} whose record {} is live", String::from_utf8_lossy(kk), id)); }
+                    }
+                }
+                "iter" => {
+                    let mut ids: Vec<RecordId> = st.iter_ids().collect(); ids.sort();
+                    let mut want: Vec<RecordId> = shadow.keys().copied().collect(); want.sort();
+                    if ids != want { return at(format!("iter_ids lists {:?} but the live ids are {:?}", ids, want)); }
+                    for x in st.iter_blobs() { match x { Ok((id, d)) => if shadow.get(&id) != Some(&d) { return at(format!("iter_blobs yields ({}, {}) which is not the live record", id, hex(&d))); }, Err(e) => return at(format!("iter_blobs yielded an error: {}", e)) } }
+                }
+                "hk" => { let (n, _) = DynStore::housekeeping(&mut st, op[1].as_u64().unwrap_or(0), &hk_dir); hk_names.push(n); }
+                "finalize" => {
+                    // afterwards the store is read-only: writes may be refused, every read answers as before
+                    if st.finalize().is_ok() { finalized = true; }
+                    for id in issued.clone() { if let Some(m) = probe(&st, id, &shadow) { return at(format!("after finalize: {}", m)); } }
                 }
                 "get" => { let id = resolve(&op[1], &issued); if let Some(m) = probe(&st, id, &shadow) { return at(m); } }
                 "len" => { if st.len() != shadow.len() { return at(format!("len() = {} but {} records are live", st.len(), shadow.len())); } }
                 "getk" => {
-                    let key = op[1].as_str().unwrap_or("").as_bytes().to_vec();
+                    let key = key_bytes(&op[1]);
                     let got = st.get_by_key(&key);
                     // records put under this key that are still live
                     let live_same: Vec<&Vec<u8>> = key_of.iter().filter(|(id, kk)| **kk == key && shadow.contains_key(id)).map(|(id, _)| &shadow[id]).collect();
@@ -1077,7 +1835,7 @@ fn run_keyed(cx: &mut Ctx, case: &Value) {
                     }
                 }
                 "prefix" => {
-                    let p = op[1].as_str().unwrap_or("").as_bytes().to_vec();
+                    let p = key_bytes(&op[1]);
                     let got = match st.get_by_prefix(&p) { Ok(v) => v, Err(e) => return at(format!("get_by_prefix failed: {}", e)) };
                     for (kk, d) in &got {
                         if !kk.starts_with(&p) { return at(format!("get_by_prefix returned key {:?} without the prefix", String::from_utf8_lossy(kk))); }
@@ -1103,6 +1861,7 @@ fn run_keyed(cx: &mut Ctx, case: &Value) {
         None
     });
     let failure = match r { Ok(x) => x, Err(p) => Some(format!("panicked: {}", p)) };
+    for n in hk_names { cx.sum.dist(&format!("hk:{}", n)); }
     if let Some(m) = failure {
         // nlt_trie_enumeration: the failing operation is a prefix query that misses a stored key, or a remove that
         // cannot restore the key from the trie node - both answered by ZiporaTrie (keys_with_prefix / restore_string, property C05)
@@ -1148,6 +1907,48 @@ const HISTORY_CELLS: [&str; 34] = [
     "zero", "nlt", "nlt_perf", "nlt_mem", "nlt_sec", "dictzip_default", "dictzip_small10", "dictzip_text", "dictzip_huff1",
 ];
 const HISTORY_CELLS_MORE: [&str; 6] = ["dictzip_binary", "dictzip_log", "dictzip_realtime", "dictzip_huff4", "dictzip_fse", "rans_t/zstd1/plain"];
+/// Oracle breadth: constructors, presets and options the first rounds never built a store with.
+const HISTORY_CELLS_BREADTH: [&str; 54] = [
+    "dictzip_bfss", "dictzip_bfzo", "dictzip_bffl",
+    "memory_default", "memory_fd", "memory_fd0", "zstd3_typed", "plain_new", "plain_over", "zero_default", "zero_finish",
+    "zstd0/memory", "zstdneg/memory", "zstd22/memory", "zstd99/memory", "rans/zero",
+    "cached_new/memory", "cached_perf/memory", "cached_default/memory", "cached_shared/memory", "cached_shared_wb/memory", "cached_shared_wa/memory",
+    "zstd3/cached_shared_wb/memory", "cached_new/huffman/memory", "huffman/zstd3/memory", "cached_wa/plain_b", "huffman_t/dictzip_small10", "zstd1/nlt",
+    "nlt_default", "nlt_cfgb", "nlt_nocache", "nlt_new",
+    "dictzip_new", "dictzip_tuned", "dictzip_mb1", "dictzip_file", "dictzip_extdict", "dictzip_fromdict", "dictzip_bfts", "dictzip_bfts_fast", "dictzip_bfts_q", "dictzip_bfv8",
+    "dictzip_huff0", "dictzip_huff2", "dictzip_huff8", "dictzip_huff_r08", "dictzip_fse4", "dictzip_fse_r08", "dictzip_cache1", "dictzip_cache2", "dictzip_pool", "dictzip_mcs1",
+    "cached_off/zstd3/memory", "dict_t/huffman_t/memory",
+];
+const PAGE: [u64; 4] = [4095, 4096, 4097, 8192];
+const P16: [u64; 4] = [65535, 65536, 65537, 16384];
+const P16_20: [u64; 5] = [65535, 65536, 65537, 1 << 20, (1 << 20) + 1];
+/// (stack, record sizes): 2^12 (page of the page cache), 2^16, 2^20, and the compression threshold of each DictZip preset
+const THRESHOLD_CELLS: [(&str, &[u64]); 37] = [
+    ("plain_new", &P16_20), ("dictzip_default", &[1 << 20, 65536, 1 << 17]), ("zstd22/memory", &[(1 << 17) - 1, 1 << 17, (1 << 17) + 1]),
+    ("memory", &P16_20), ("zstd1/memory", &P16_20), ("zstd3_typed", &P16_20), ("zstd19/memory", &P16), ("huffman/memory", &P16_20), ("huffman_t/memory", &P16_20),
+    ("rans_t/memory", &P16_20), ("dict_t/memory", &P16), ("cached_wt/memory", &PAGE), ("cached_wb/memory", &P16_20), ("cached_wa/memory", &PAGE), ("cached_shared_wb/memory", &PAGE),
+    ("cached_mem/memory", &P16), ("cached_sec/memory", &PAGE), ("cached_perf/memory", &P16), ("zstd3/cached_wt/memory", &P16), ("cached_wb/huffman_t/memory", &P16), ("plain", &P16), ("zstd3/plain", &P16),
+    ("nlt", &P16), ("nlt_perf", &PAGE), ("nlt_mem", &PAGE), ("nlt_cfgb", &P16),
+    ("dictzip_default", &[63, 64, 65, 4096]), ("dictzip_text", &[31, 32, 33, 4097]), ("dictzip_binary", &[127, 128, 129, 8192]), ("dictzip_log", &[15, 16, 17, 4095]),
+    ("dictzip_realtime", &[255, 256, 257, 65536]), ("dictzip_small10", &[9, 10, 11, 65535]), ("dictzip_huff1", &[9, 10, 11, 4096]), ("dictzip_fse", &[9, 10, 11, 65537]),
+    ("dictzip_mcs1", &[1, 2, 1024, 16384]), ("dictzip_cache1", &[9, 10, 11, 1023]), ("dictzip_bfts", &[15, 16, 17, 4096]),
+];
+const BUILD_CELLS_BREADTH: [&str; 38] = [
+    "zipoffset:c0k0x4,8,16", "zipoffset:c0k2x5,10,20", "zipoffset:c0k0x8,32,64", "zipoffset:c1k2x4,12,24", "zipoffset:c0k3x7,9,57,0", "zipoffset_batch:perf", "zipoffset_batch:c0k0x4,8,16", "zipoffset_batch:sec",
+    "zipoffset_empty:default", "zipoffset_empty:perf", "zipoffset_empty:c0k0x4,8,16",
+    "suv:default", "suv:perf", "suv:mem", "suv:4,8,16", "suv:8,32,64", "suv:5,13,57,0", "suv:6,16,32,0", "suv:7,20,40,0",
+    "nlt_builder2:default", "nlt_builder2:perf", "nlt_builder2:mem", "nlt_builder2:sec",
+    "nlt_from:sortable", "nlt_from:zosorted", "nlt_from:fixedlen", "nlt_from:vec_u8", "nlt_from:slice_u8", "nlt_from:kv",
+    "simplezip:1,1", "simplezip:8,256", "simplezip:1,1048576,10", "simplezip:0,5", "simplezip:9,8", "simplezip:1,1048577", "simplezip:2,6,0,255",
+    "mixed:1000", "mixed:1",
+];
+/// (stack, number of records, longest record): 2^16 + 1 records where a record is cheap, thousands elsewhere - more than the read
+/// cache of DictZip (64 entries), the key cache of the trie store (256 ... 4096 keys), the page cache (256 KiB) hold
+const BULK_CELLS: [(&str, u64, u64); 16] = [
+    ("memory", 65537, 6), ("memory_cap", 5000, 300), ("zero", 65537, 0), ("zstd1/memory", 5000, 120), ("huffman_t/memory", 5000, 120), ("rans_t/memory", 5000, 40),
+    ("cached_wt/memory", 5000, 300), ("cached_wb/memory", 5000, 300), ("cached_shared_wb/memory", 3000, 500), ("zstd3/cached_wt/memory", 3000, 200),
+    ("nlt", 4500, 20), ("nlt_mem", 600, 20), ("nlt_cfgb", 1200, 20), ("dictzip_small10", 1500, 90), ("dictzip_cache1", 300, 90), ("plain", 300, 50),
+];
 const MODELLED_STACKS: [&str; 30] = [
     "memory", "memory_cap", "plain", "zero", "zstd1/memory", "zstd3/memory", "zstd19/memory", "zstd3/plain",
     "huffman/memory", "huffman_t/memory", "rans/memory", "rans_t/memory", "dict/memory", "dict_t/memory",
@@ -1165,13 +1966,13 @@ const BUILD_CELLS: [&str; 27] = [
 
 pub fn run(args: &Args) {
     let mut cx = Ctx {
-        sum: Summary::new("C03", "operation histories (put/put_batch/remove/get/contains/size/len/save-load, 3..60 ops, ids drawn from issued/removed/never-issued/0/MAX; records empty, 1 byte, equal-length, 4 KiB compressible, incompressible, lengths around 64/128/256/4096) over every store type and wrapper stack, judged against a shadow map; bulk builders (record counts around the offset-index block sizes 64/128) read back in full, then saved, loaded and read back again; a case is non-trivial when it has >=3 operations or >=2 records; distinct = distinct canonical case text"),
+        sum: Summary::new("C03", "operation histories (put/put_batch/remove/remove_batch/get/get_batch/contains/size/len/save-load and the secondary entry points of each store: iteration, housekeeping calls, Clone, clear, retraining, re-wrapping, finalize; 3..60 ops, scripted entry-point, threshold-size and many-record histories, ids drawn from issued/removed/never-issued/0/MAX; records empty, 1 byte, equal-length, 4 KiB compressible, incompressible, lengths around 64/128/256/4096) over every store type and wrapper stack, judged against a shadow map; bulk builders (record counts around the offset-index block sizes 64/128) read back in full, then saved, loaded and read back again; a case is non-trivial when it has >=3 operations or >=2 records; distinct = distinct canonical case text"),
         shards: CoqShards::new(HEADER, 300),
         budget: if args.thorough { 6000 } else { 1200 },
         n_hist: 0,
         n_xhist: 0,
         n_xmem: 0,
-        env: Env { dir: args.out.clone(), n: 0 },
+        env: Env { dir: args.out.clone(), n: 0, initial: vec![] },
     };
     cx.sum.max_failures = 300;
     if let Some(f) = &args.replay {
@@ -1212,6 +2013,49 @@ pub fn run(args: &Args) {
             run_case(&mut cx, &c, false);
         }
     }
+    // 2b. the other constructors, presets and options of every store type (oracle breadth): same histories
+    for round in 0..(if args.thorough { 24 } else { 2 }) {
+        for spec in HISTORY_CELLS_BREADTH.iter() {
+            let slow = spec.contains("plain") || spec.starts_with("dictzip") || spec.starts_with("nlt");
+            let c = gen_history(&mut rng, spec, if slow { 30 } else { 50 });
+            run_case(&mut cx, &c, false);
+            let _ = round;
+        }
+    }
+    // 2b'. one scripted pass through every secondary entry point, per stack
+    for salt in 0..(if args.thorough { 12u64 } else { 2 }) {
+        let mut all_cells: Vec<&str> = cells.clone();
+        all_cells.extend_from_slice(&HISTORY_CELLS_BREADTH);
+        for spec in all_cells { let c = gen_entry_history(&mut rng, spec, salt + args.seed % 13); run_case(&mut cx, &c, false); cx.sum.dist("entry_point_histories"); }
+    }
+    // 2c. deterministic histories with records of exactly the sizes at which something switches
+    for (i, (spec, sizes)) in THRESHOLD_CELLS.iter().enumerate() {
+        let c = gen_threshold_history(spec, sizes, (args.seed % 7) + i as u64);
+        run_case(&mut cx, &c, false);
+        cx.sum.dist("threshold_histories");
+    }
+    // 2c'. the entropy stage of DictZip under every algorithm / interleave factor: many short compressible records (the stage is
+    //      kept only when it shrinks the PA-Zip output, which short text does now and then), each read back at once and at the end
+    for (i, spec) in ["dictzip_huff0", "dictzip_huff1", "dictzip_huff2", "dictzip_huff4", "dictzip_huff8", "dictzip_huff_r08", "dictzip_fse", "dictzip_fse4", "dictzip_fse_r08"].iter().enumerate() {
+        let mut ops: Vec<Value> = vec![];
+        for k in 0..(if args.thorough { 160u64 } else { 48 }) {
+            let len = 10 + (k * 7 + args.seed) % 53;
+            let kind = [5u64, 2, 5, 4, 5, 0][(k % 6) as usize];
+            // every 8th record is long and literal-heavy (two-symbol / counting bytes the dictionary does not know): the stage pays off there too
+            let (kind, len) = if k % 8 == 5 { ([4u64, 3, 4, 0][(k / 8 % 4) as usize], 300 + (k * 131 + args.seed * 7) % 4000) } else { (kind, len) };
+            ops.push(json!(["put", [kind, len, 600 + k * 13 + i as u64 + args.seed % 97]]));
+            if k % 4 == 3 { ops.push(json!(["get", {"i": k as usize}])); }
+        }
+        ops.push(json!(["iter"]));
+        run_case(&mut cx, &json!({"cell": spec, "kind": "history", "ops": ops}), false);
+        cx.sum.dist("entropy_stage_histories");
+    }
+    // 2d. histories with thousands of records
+    for (i, (spec, n, max_len)) in BULK_CELLS.iter().enumerate() {
+        let c = gen_bulk_history(spec, *n, *max_len, (args.seed % 5) + i as u64);
+        run_case(&mut cx, &c, false);
+        cx.sum.dist("bulk_histories");
+    }
     // extra volume on the modelled cell
     for _ in 0..(if args.thorough { 3000 } else { 450 }) {
         let c = gen_history_sized(&mut rng, "memory", 40, true);
@@ -1219,13 +2063,61 @@ pub fn run(args: &Args) {
     }
     // 3. bulk builders
     let rounds = if args.thorough { 120 } else { 24 };
-    for _ in 0..rounds {
+    for round in 0..rounds {
         for spec in BUILD_CELLS.iter() {
             let big = spec.starts_with("zipoffset");
             let recs = gen_records(&mut rng, big);
             let mut c = json!({"cell": spec, "kind": "build", "recs": recs});
             if spec.starts_with("zipoffset_batch") { c["batch"] = json!(*rng.pick(&[1u64, 2, 3, 4, 7])); }
+            // every other round drives the builder / the built store through its secondary entry points as well
+            if round % 2 == 1 { c["plan"] = json!(rng.range(1, 1000)); }
             run_case(&mut cx, &c, false);
+        }
+    }
+    // 3a'. oracle breadth: custom offset-index configurations, empty stores, SortedUintVec used directly, the other builders and
+    //      constructors of the trie store, invalid and extreme SimpleZip configurations
+    for round in 0..(if args.thorough { 60 } else { 6 }) {
+        for spec in BUILD_CELLS_BREADTH.iter() {
+            let recs = if spec.starts_with("nlt") { let mut v = gen_records(&mut rng, false); v.truncate(48); v } else { gen_records(&mut rng, spec.starts_with("zipoffset")) };
+            let mut c = json!({"cell": spec, "kind": "build", "recs": recs, "plan": rng.below(1000)});
+            if spec.starts_with("zipoffset_batch") { c["batch"] = json!(*rng.pick(&[0u64, 1, 2, 5, 64])); }
+            if spec.starts_with("suv") { c["base"] = json!(*rng.pick(&[0u64, 0, 1, 65533, (1 << 16) + 1, (1 << 24) - 40, (1u64 << 32) - 7, 1u64 << 40, (1u64 << 57) - 100, u64::MAX - 100000])); c["drop_first"] = json!(rng.chance(1, 4)); }
+            run_case(&mut cx, &c, false);
+            let _ = round;
+        }
+    }
+    // 3a''. sizes at which an internal width switches: 256-bit rank blocks and 8/16-bit offset widths of MixedLenBlobStore,
+    //       fragment counts 2^8 / 2^16 of SimpleZipBlobStore (one-byte fragments), the sample width of a custom offset index
+    for n in [255u64, 256, 257, 511, 513, 1025] {
+        let recs: Vec<Value> = (0..n).map(|i| json!([3, if i % 3 == 0 { 2 } else { i % 5 }, i])).collect();
+        for spec in ["mixed", "mixed:2", "simplezip:1,1"] { run_case(&mut cx, &json!({"cell": spec, "kind": "build", "recs": recs, "plan": n}), false); cx.sum.dist("width_switch_cases"); }
+    }
+    for total in [255u64, 256, 257, 65535, 65536, 65537] {
+        // variable-length bytes (MixedLen, fixed length 3) / fragments (SimpleZip, one byte each) adding up to exactly `total`
+        let recs = vec![json!([3, 3, 1]), json!([1, total - 9, total]), json!([3, 3, 2]), json!([4, 9, 5]), json!([0, 0, 0]), json!([3, 3, 3])];
+        for spec in ["mixed:3", "mixed", "simplezip:1,1", "simplezip:1,2,97"] { run_case(&mut cx, &json!({"cell": spec, "kind": "build", "recs": recs, "plan": total}), false); cx.sum.dist("width_switch_cases"); }
+    }
+    // 3e. record counts of 2^12 .. 2^16 + 1 (thousands of index blocks, multi-level rank directories, 17-bit boundaries)
+    for (spec, n, max_len) in [("zipoffset:c0k0od", 65537u64, 3u64), ("zipoffset:default", 4097, 40), ("zipoffset:perf", 16385, 9), ("zipoffset:c0k2om", 8193, 5), ("zipoffset_batch:c0k0od", 8191, 7),
+                               ("mixed", 65537, 3), ("mixed:2", 20001, 4), ("simplezip", 65537, 12), ("simplezip:1,1", 20000, 5), ("suv:default", 65537, 200), ("suv:perf", 40000, 3000), ("suv:4,8,16", 4000, 15),
+                               ("zerofinish", 65537, 0), ("zeroputs", 5000, 0), ("memory_from_data", 65537, 5), ("nlt_builder2:perf", 3000, 12), ("nlt_builder", 1500, 12)] {
+        let mut c = json!({"cell": spec, "kind": "build", "recs_gen": [n, max_len, (args.seed % 11) + n], "plan": n + args.seed % 3});
+        if spec.starts_with("zipoffset_batch") { c["batch"] = json!(100); }
+        run_case(&mut cx, &c, false);
+        cx.sum.dist("many_record_builds");
+    }
+    for (cfgname, sw, bsz) in [("c0k0x4,32,16", 16u32, 16usize), ("c0k2x4,32,16", 16, 16), ("c0k0x5,24,20", 20, 32)] {
+        let extra = if cfgname.as_bytes()[3] == b'2' { 4usize } else { 0 };
+        for target in [(1usize << sw) - 1, 1 << sw, (1 << sw) + 1] {
+            // `bsz` records whose stored lengths add up to `target`: the first offset of the second block is `target`
+            let each = target / bsz;
+            let mut recs: Vec<Value> = (0..bsz - 1).map(|k| json!([1, each - extra, k])).collect();
+            recs.push(json!([4, target - each * (bsz - 1) - extra, 77]));
+            recs.push(json!([3, 2, 7])); recs.push(json!([0, 0, 0]));
+            run_case(&mut cx, &json!({"cell": format!("zipoffset:{}", cfgname), "kind": "build", "recs": recs, "plan": target as u64}), false);
+            let vals: Vec<Value> = (0..bsz).map(|k| json!([0, each, k])).collect();
+            run_case(&mut cx, &json!({"cell": format!("suv:{}", &cfgname[5..]), "kind": "build", "recs": vals, "base": target - each * bsz, "plan": target as u64}), false);
+            cx.sum.dist("sample_width_boundary_cases");
         }
     }
     // 3b. enumerated boundary family of the offset index: a block whose span is 2^offset_width - 1, exactly 2^offset_width,
@@ -1288,6 +2180,13 @@ pub fn run(args: &Args) {
     // 5. keyed histories on the trie store
     for round in 0..(if args.thorough { 400 } else { 80 }) {
         let spec = ["nlt_keyed:default", "nlt_keyed:perf", "nlt_keyed:mem", "nlt_keyed:sec"][round % 4];
+        let c = gen_keyed(&mut rng, spec);
+        run_case(&mut cx, &c, false);
+    }
+    // 5b. the rest of the keyed API (contains_key, put_batch_with_keys, keys, keys_with_prefix, iteration, finalize), also with a
+    //     two-entry key cache and without one ('+' = the wider operation mix)
+    for round in 0..(if args.thorough { 600 } else { 60 }) {
+        let spec = ["nlt_keyed:default+", "nlt_keyed:perf+", "nlt_keyed:mem+", "nlt_keyed:sec+", "nlt_keyed:cache2+", "nlt_keyed:nocache+"][round % 6];
         let c = gen_keyed(&mut rng, spec);
         run_case(&mut cx, &c, false);
     }
